@@ -492,4 +492,3378 @@ theorem characterData_spec (buf : Bytes) (pos : Nat) (h : pos ≤ buf.length) :
       lex_rel [hh]
       exact plain_result_eq rfl
 
+/-! ## main -/
+/-! ## newline, expression, nondecimal -/
+
+theorem plain_result_eq2 {pos p n : Nat} {ty : TokType} (hp : p = pos + n) :
+    (if ((p : Int) - pos) > 0 then (p, Token.mk ty pos ((p : Int) - pos), (p : Int) - pos)
+      else (pos, Token.mk .unknown pos 0, (0 : Int))) =
+      (pos + n, Token.mk (if n > 0 then ty else .unknown) pos n, (n : Int)) := by
+  subst hp
+  have e : ((pos + n : Nat) : Int) - pos = n := by omega
+  rw [e]
+  by_cases hn : 0 < n
+  · simp [hn]
+  · have : n = 0 := by omega
+    subst this; simp
+
+theorem plain_result_eq3 {pos p n : Nat} {ty : TokType} (hp : p = pos + n) (hn : 0 < n) :
+    (p, Token.mk ty pos ((p : Int) - pos), (p : Int) - pos) =
+      (pos + n, Token.mk (if n > 0 then ty else .unknown) pos n, (n : Int)) := by
+  subst hp
+  have e : ((pos + n : Nat) : Int) - pos = n := by omega
+  rw [e]; simp [hn]
+
+theorem plain_result_eq0 {pos : Nat} {ty : TokType} :
+    (pos, Token.mk .unknown pos 0, (0 : Int)) =
+      (pos + 0, Token.mk (if 0 > 0 then ty else .unknown) pos (0 : Nat), ((0 : Nat) : Int)) := by
+  simp
+
+theorem PM_newline {s : Bytes} {m : Nat} :
+    PM newline s m ↔ (m = 2 ∧ hd s (· == 13) = true ∧ hd (s.drop 1) (· == 10) = true) ∨
+      (m = 1 ∧ hd s (· == 10) = true) ∨ (m = 1 ∧ hd s (· == 13) = true) := by
+  unfold newline
+  rw [PM_alt, PM_alt, PM_seq, PM_c, PM_c]
+  constructor
+  · rintro (⟨i, j, rfl, h1, h2⟩ | h | h)
+    · rw [PM_c] at h1 h2
+      obtain ⟨rfl, h1⟩ := h1
+      obtain ⟨rfl, h2⟩ := h2
+      exact .inl ⟨rfl, h1, h2⟩
+    · exact .inr (.inl h)
+    · exact .inr (.inr h)
+  · rintro (⟨rfl, h1, h2⟩ | h | h)
+    · exact .inl ⟨1, 1, rfl, PM_c.2 ⟨rfl, h1⟩, PM_c.2 ⟨rfl, h2⟩⟩
+    · exact .inr (.inl h)
+    · exact .inr (.inr h)
+
+theorem cr_not_lf {s : Bytes} (h : hd s (· == 13) = true) : hd s (· == 10) = false :=
+  hd_disj (by intro b hb; simp at *; subst hb; decide) h
+
+theorem newLine_spec (buf : Bytes) (pos : Nat) (h : pos ≤ buf.length) :
+    Agrees .nl buf pos (lexNewLine buf pos) := by
+  by_cases h13 : hd (buf.drop pos) (· == 13) = true
+  · by_cases h10 : hd ((buf.drop pos).drop 1) (· == 10) = true
+    · apply agrees_plain' (re := newline) (ty := .nl) rfl (by decide) 2 _ _ _ _ h
+      · intro m hm; rw [PM_newline] at hm; omega
+      · intro _; exact PM_newline.2 (.inl ⟨rfl, h13, h10⟩)
+      · unfold lexNewLine
+        lex_rel [h13, h10, if_true]
+        exact plain_result_eq2 (by omega)
+    · apply agrees_plain' (re := newline) (ty := .nl) rfl (by decide) 1 _ _ _ _ h
+      · intro m hm; rw [PM_newline] at hm
+        rcases hm with ⟨_, _, h2⟩ | h2 | h2
+        · exact absurd h2 h10
+        · omega
+        · omega
+      · intro _; exact PM_newline.2 (.inr (.inr ⟨rfl, h13⟩))
+      · unfold lexNewLine
+        lex_rel [h13, h10, if_true]
+        exact plain_result_eq2 (by simp)
+  · by_cases h10 : hd (buf.drop pos) (· == 10) = true
+    · apply agrees_plain' (re := newline) (ty := .nl) rfl (by decide) 1 _ _ _ _ h
+      · intro m hm; rw [PM_newline] at hm
+        rcases hm with ⟨_, h2, _⟩ | h2 | h2
+        · exact absurd h2 h13
+        · omega
+        · omega
+      · intro _; exact PM_newline.2 (.inr (.inl ⟨rfl, h10⟩))
+      · unfold lexNewLine
+        lex_rel [h13, h10, if_true, if_false, Bool.false_eq_true, Nat.add_zero, List.drop_zero]
+        exact plain_result_eq2 (by simp)
+    · apply agrees_plain' (re := newline) (ty := .nl) rfl (by decide) 0 _ _ _ _ h
+      · intro m hm; rw [PM_newline] at hm
+        rcases hm with ⟨_, h2, _⟩ | ⟨_, h2⟩ | ⟨_, h2⟩
+        · exact absurd h2 h13
+        · exact absurd h2 h10
+        · exact absurd h2 h13
+      · intro hn; omega
+      · unfold lexNewLine
+        lex_rel [h13, h10, if_true, if_false, Bool.false_eq_true, Nat.add_zero, List.drop_zero]
+        exact plain_result_eq2 (p := pos) (n := 0) rfl
+
+theorem PM_expression {s : Bytes} {m : Nat} :
+    PM expression s m ↔ hd s (· == 40) = true ∧
+      hd ((s.drop 1).drop (tw isProgramExpression (s.drop 1))) (· == 41) = true ∧
+      m = 1 + tw isProgramExpression (s.drop 1) + 1 := by
+  unfold expression
+  rw [PM_seq]
+  constructor
+  · rintro ⟨i, j, rfl, h1, h2⟩
+    rw [PM_c] at h1
+    obtain ⟨rfl, h1⟩ := h1
+    rw [PM_seq] at h2
+    obtain ⟨i, j, rfl, h2, h3⟩ := h2
+    rw [PM_star_chr] at h2
+    rw [PM_c] at h3
+    obtain ⟨rfl, h3⟩ := h3
+    have : i = tw isProgramExpression (s.drop 1) := by
+      apply Nat.le_antisymm h2
+      apply Nat.le_of_not_lt
+      intro hlt
+      have h4 := hd_drop_of_lt_tw hlt
+      have h5 : hd ((s.drop 1).drop i) (· == 41) = false :=
+        hd_disj (by intro b hb; simp [isProgramExpression] at *; grind) h4
+      rw [h5] at h3; cases h3
+    subst this
+    exact ⟨h1, h3, by omega⟩
+  · rintro ⟨h1, h2, rfl⟩
+    exact ⟨1, _, by omega, PM_c.2 ⟨rfl, h1⟩,
+      PM_seq.2 ⟨_, 1, rfl, PM_star_chr.2 (Nat.le_refl _), PM_c.2 ⟨rfl, h2⟩⟩⟩
+
+theorem expression_spec (buf : Bytes) (pos : Nat) (h : pos ≤ buf.length) :
+    Agrees .expression buf pos (lexExpression buf pos) := by
+  by_cases h40 : hd (buf.drop pos) (· == 40) = true
+  · by_cases h41 : hd (((buf.drop pos).drop 1).drop (tw isProgramExpression ((buf.drop pos).drop 1))) (· == 41) = true
+    · apply agrees_plain' (re := expression) (ty := .expression) rfl (by decide)
+        (1 + tw isProgramExpression ((buf.drop pos).drop 1) + 1) _ _ _ _ h
+      · intro m hm; rw [PM_expression] at hm; omega
+      · intro _; exact PM_expression.2 ⟨h40, h41, rfl⟩
+      · unfold lexExpression
+        lex_rel [h40, h41, if_true]
+        exact plain_result_eq3 (by omega) (by omega)
+    · apply agrees_plain' (re := expression) (ty := .expression) rfl (by decide) 0 _ _ _ _ h
+      · intro m hm; rw [PM_expression] at hm; exact absurd hm.2.1 h41
+      · intro hn; omega
+      · unfold lexExpression
+        lex_rel [h40, h41, if_true]
+        exact plain_result_eq0
+  · apply agrees_plain' (re := expression) (ty := .expression) rfl (by decide) 0 _ _ _ _ h
+    · intro m hm; rw [PM_expression] at hm; exact absurd hm.1 h40
+    · intro hn; omega
+    · unfold lexExpression
+      lex_rel [h40]
+      exact plain_result_eq0
+
+/-- `# <letter> <digit>+` -/
+def numRe (pc pd : UInt8 → Bool) : Re := .seq (Re.c 35) (.seq (.chr pc) (plus (.chr pd)))
+
+theorem PM_numRe {pc pd : UInt8 → Bool} {s : Bytes} {m : Nat} :
+    PM (numRe pc pd) s m ↔ hd s (· == 35) = true ∧ hd (s.drop 1) pc = true ∧
+      3 ≤ m ∧ m ≤ 2 + tw pd ((s.drop 1).drop 1) := by
+  unfold numRe
+  rw [PM_seq]
+  constructor
+  · rintro ⟨i, j, rfl, h1, h2⟩
+    rw [PM_c] at h1
+    obtain ⟨rfl, h1⟩ := h1
+    rw [PM_seq] at h2
+    obtain ⟨i, j, rfl, h2, h3⟩ := h2
+    rw [PM_chr] at h2
+    obtain ⟨rfl, h2⟩ := h2
+    rw [PM_plus_chr] at h3
+    exact ⟨h1, h2, by omega, by omega⟩
+  · rintro ⟨h1, h2, h3, h4⟩
+    exact ⟨1, m - 1, by omega, PM_c.2 ⟨rfl, h1⟩,
+      PM_seq.2 ⟨1, m - 2, by omega, PM_chr.2 ⟨rfl, h2⟩, PM_plus_chr.2 ⟨by omega, by omega⟩⟩⟩
+
+theorem longest_numRe (pc pd : UInt8 → Bool) (s : Bytes) :
+    (numRe pc pd).longest s =
+      if hd s (· == 35) = true ∧ hd (s.drop 1) pc = true ∧ 0 < tw pd ((s.drop 1).drop 1)
+      then some (2 + tw pd ((s.drop 1).drop 1)) else none := by
+  split
+  · next hc =>
+    apply longest_eq_some
+    · exact PM_numRe.2 ⟨hc.1, hc.2.1, by omega, Nat.le_refl _⟩
+    · intro m hm; exact (PM_numRe.1 hm).2.2.2
+  · next hc =>
+    apply longest_eq_none
+    intro m hm
+    rw [PM_numRe] at hm
+    exact hc ⟨hm.1, hm.2.1, by omega⟩
+
+theorem specToken_nondecimal (s : Bytes) : specToken .nondecimal s =
+    let pick := fun (r : Re) (ty : TokType) => match r.longest s with
+      | some n => some (Expect.mk n ty 2 (n - 2))
+      | none => none
+    (pick (numRe (fun b => b == 104 || b == 72) isXDigit) .hexnum).orElse fun _ =>
+      (pick (numRe (fun b => b == 113 || b == 81) isQDigit) .octnum).orElse fun _ =>
+        pick (numRe (fun b => b == 98 || b == 66) isBDigit) .binnum := rfl
+
+theorem nondecimal_fail {buf s : Bytes} {pos : Nat} (hs : buf.drop pos = s)
+    (hsp : specToken .nondecimal s = none) :
+    Agrees .nondecimal buf pos (pos, Token.mk .unknown pos 0, 0) := by
+  unfold Agrees; rw [hs, hsp]; simp
+
+theorem nondecimal_ok {buf s : Bytes} {pos t : Nat} {ty : TokType} (h : pos ≤ buf.length) (hs : buf.drop pos = s)
+    (hsp : specToken .nondecimal s = some ⟨2 + t, ty, 2, 2 + t - 2⟩)
+    (ht : 2 + t ≤ s.length) :
+    Agrees .nondecimal buf pos
+      (pos + 1 + 1 + t, Token.mk ty (pos + 2) (((pos + 1 + 1 + t : Nat) : Int) - ((pos : Int) + 2)),
+        ((pos + 1 + 1 + t : Nat) : Int) - ((pos : Int) + 2) + 2) := by
+  unfold Agrees; rw [hs, hsp]
+  subst hs
+  simp at ht
+  simp only [Token.mk.injEq, true_and]
+  refine ⟨by omega, by omega, by omega, by omega⟩
+
+theorem numRe_len {pd : UInt8 → Bool} {s : Bytes} (_h35 : hd s (· == 35) = true)
+    (ht : 0 < tw pd ((s.drop 1).drop 1)) : 2 + tw pd ((s.drop 1).drop 1) ≤ s.length := by
+  have := tw_le_length pd ((s.drop 1).drop 1)
+  simp only [List.length_drop] at this
+  omega
+
+/-- evaluate `specToken .nondecimal s` under the given facts about the first two bytes -/
+syntax "nd_eval" "[" Lean.Parser.Tactic.simpLemma,* "]" : tactic
+macro_rules
+  | `(tactic| nd_eval [$ts,*]) => `(tactic| (
+      rw [specToken_nondecimal]; simp only [longest_numRe]
+      generalize List.drop 1 _ = s1 at *
+      generalize List.drop 1 s1 = s2 at *
+      simp [$ts,*]))
+
+theorem nondecimal_spec (buf : Bytes) (pos : Nat) (h : pos ≤ buf.length) :
+    Agrees .nondecimal buf pos (lexNondecimal buf pos) := by
+  have hxq : ∀ {s : Bytes}, hd s (fun b => b == 104 || b == 72) = true → hd s (fun b => b == 113 || b == 81) = false :=
+    fun h => hd_disj (by intro b hb; simp at *; grind) h
+  have hxb : ∀ {s : Bytes}, hd s (fun b => b == 104 || b == 72) = true → hd s (fun b => b == 98 || b == 66) = false :=
+    fun h => hd_disj (by intro b hb; simp at *; grind) h
+  have hqb : ∀ {s : Bytes}, hd s (fun b => b == 113 || b == 81) = true → hd s (fun b => b == 98 || b == 66) = false :=
+    fun h => hd_disj (by intro b hb; simp at *; grind) h
+  unfold lexNondecimal
+  lex_rel
+  generalize hs : buf.drop pos = s
+  by_cases h35 : hd s (· == 35) = true
+  · simp only [h35, if_true]
+    by_cases hx : hd (s.drop 1) (fun b => b == 104 || b == 72) = true
+    · simp only [hx, if_true]
+      have hq := hxq hx
+      have hb := hxb hx
+      by_cases ht : 0 < tw isXDigit ((s.drop 1).drop 1)
+      · rw [if_pos (by omega)]
+        refine nondecimal_ok h hs ?_ (numRe_len h35 ht)
+        nd_eval [h35, hx, ht]
+      · rw [if_neg (by omega)]
+        refine nondecimal_fail hs ?_
+        nd_eval [h35, hx, ht, hq, hb]
+    · simp only [hx, Bool.false_eq_true, if_false]
+      by_cases hq : hd (s.drop 1) (fun b => b == 113 || b == 81) = true
+      · simp only [hq, if_true]
+        have hb := hqb hq
+        by_cases ht : 0 < tw isQDigit ((s.drop 1).drop 1)
+        · rw [if_pos (by omega)]
+          refine nondecimal_ok h hs ?_ (numRe_len h35 ht)
+          nd_eval [h35, hx, hq, ht]
+        · rw [if_neg (by omega)]
+          refine nondecimal_fail hs ?_
+          nd_eval [h35, hx, hq, ht, hb]
+      · simp only [hq, Bool.false_eq_true, if_false]
+        by_cases hb : hd (s.drop 1) (fun b => b == 98 || b == 66) = true
+        · simp only [hb, if_true]
+          by_cases ht : 0 < tw isBDigit ((s.drop 1).drop 1)
+          · rw [if_pos (by omega)]
+            refine nondecimal_ok h hs ?_ (numRe_len h35 ht)
+            nd_eval [h35, hx, hq, hb, ht]
+          · rw [if_neg (by omega)]
+            refine nondecimal_fail hs ?_
+            nd_eval [h35, hx, hq, hb, ht]
+        · simp only [hb, Bool.false_eq_true, if_false]
+          refine nondecimal_fail hs ?_
+          nd_eval [h35, hx, hq, hb]
+  · simp only [h35, Bool.false_eq_true, if_false]
+    refine nondecimal_fail hs ?_
+    nd_eval [h35]
+
+/-! ## decimal -/
+/-! ## byte classes -/
+theorem decimal_digit_not_dot : ∀ b, isDigit b = true → (b == 46) = false := by
+  intro b h; simp [isDigit] at *; grind
+theorem decimal_sign_not_digit : ∀ b, isPlusMn b = true → isDigit b = false := by
+  intro b h; simp [isDigit, isPlusMn] at *; grind
+theorem decimal_sign_not_dd : ∀ b, isPlusMn b = true → (isDigit b || b == 46) = false := by
+  intro b h; simp [isDigit, isPlusMn] at *; grind
+theorem decimal_ws_not_E : ∀ b, isWs b = true → isE b = false := by
+  intro b h; simp [isWs, isE] at *; grind
+theorem decimal_ws_not_sd : ∀ b, isWs b = true → (isPlusMn b || isDigit b) = false := by
+  intro b h; simp [isWs, isPlusMn, isDigit] at *; grind
+theorem decimal_dd_not_wsE : ∀ b, (isDigit b || b == 46) = true → (isWs b || isE b) = false := by
+  intro b h; simp [isWs, isE, isDigit] at *; grind
+
+/-! ## generic: optional / starred class followed by something that cannot start in that class -/
+theorem decimal_PM_opt_seq {p q : UInt8 → Bool} {r : Re} (hpq : ∀ b, p b = true → q b = false)
+    (hr : ∀ t j, PM r t j → hd t q = true) {s : Bytes} {m : Nat} :
+    PM (.seq (opt (.chr p)) r) s m ↔
+      ∃ j, m = (if hd s p = true then 1 else 0) + j ∧ PM r (s.drop (if hd s p = true then 1 else 0)) j := by
+  rw [PM_seq]
+  constructor
+  · rintro ⟨i, j, rfl, h1, h2⟩
+    rw [PM_opt, PM_chr] at h1
+    rcases h1 with rfl | ⟨rfl, hp⟩
+    · have hq := hr _ _ h2
+      simp only [List.drop_zero] at hq
+      have hp : ¬ hd s p = true := by
+        intro h; rw [hd_disj hpq h] at hq; cases hq
+      rw [if_neg hp]; exact ⟨j, rfl, h2⟩
+    · rw [if_pos hp]; exact ⟨j, rfl, h2⟩
+  · rintro ⟨j, rfl, h⟩
+    by_cases hp : hd s p = true
+    · rw [if_pos hp] at h ⊢; exact ⟨1, j, rfl, PM_opt.2 (.inr (PM_chr.2 ⟨rfl, hp⟩)), h⟩
+    · rw [if_neg hp] at h ⊢; exact ⟨0, j, rfl, PM_opt.2 (.inl rfl), h⟩
+
+theorem decimal_PM_star_seq {p q : UInt8 → Bool} {r : Re} (hpq : ∀ b, p b = true → q b = false)
+    (hr : ∀ t j, PM r t j → hd t q = true) {s : Bytes} {m : Nat} :
+    PM (.seq (.star (.chr p)) r) s m ↔ ∃ j, m = tw p s + j ∧ PM r (s.drop (tw p s)) j := by
+  rw [PM_seq]
+  constructor
+  · rintro ⟨i, j, rfl, h1, h2⟩
+    rw [PM_star_chr] at h1
+    have hq := hr _ _ h2
+    have hi : i = tw p s := by
+      rcases Nat.lt_or_ge i (tw p s) with hlt | hge
+      · have := hd_disj hpq (hd_drop_of_lt_tw hlt); rw [this] at hq; cases hq
+      · omega
+    subst hi; exact ⟨j, rfl, h2⟩
+  · rintro ⟨j, rfl, h⟩
+    exact ⟨_, j, rfl, PM_star_chr.2 (Nat.le_refl _), h⟩
+
+theorem decimal_PM_digits {s : Bytes} {m : Nat} : PM digits s m ↔ 1 ≤ m ∧ m ≤ tw isDigit s := PM_plus_chr
+
+theorem decimal_digits_hd (t : Bytes) (j : Nat) (h : PM digits t j) : hd t isDigit = true := by
+  have := decimal_PM_digits.1 h
+  exact tw_pos_iff.1 (by omega)
+
+/-! ## the mantissa without its sign -/
+def decimalCore : Re :=
+  .alt (.seq digits (opt (.seq (Re.c 46) (.star (.chr isDigit))))) (.seq (Re.c 46) digits)
+
+theorem decimal_mantissa_eq : mantissa = .seq (opt (.chr isPlusMn)) decimalCore := rfl
+
+theorem decimal_PM_core {t : Bytes} {m d1 d2 : Nat} (hd1 : d1 = tw isDigit t)
+    (hd2 : d2 = tw isDigit (t.drop (d1 + 1))) :
+    PM decimalCore t m ↔
+      (1 ≤ m ∧ m ≤ d1) ∨
+      (hd (t.drop d1) (· == 46) = true ∧ d1 + 1 ≤ m ∧ m ≤ d1 + 1 + d2 ∧ (1 ≤ d1 ∨ d1 + 2 ≤ m)) := by
+  unfold decimalCore
+  rw [PM_alt, PM_seq, PM_seq]
+  constructor
+  · rintro (⟨a, b, rfl, ha, hb⟩ | ⟨a, b, rfl, ha, hb⟩)
+    · rw [decimal_PM_digits] at ha
+      rw [PM_opt, PM_seq] at hb
+      rcases hb with rfl | ⟨i, j, rfl, hi, hj⟩
+      · left; omega
+      · rw [PM_c] at hi
+        obtain ⟨rfl, hdot⟩ := hi
+        rw [PM_star_chr, List.drop_drop] at hj
+        have ha' : a = d1 := by
+          rcases Nat.lt_or_ge a d1 with hlt | hge
+          · rw [hd1] at hlt
+            have := hd_disj decimal_digit_not_dot (hd_drop_of_lt_tw hlt)
+            rw [this] at hdot; cases hdot
+          · omega
+        subst ha'
+        right; exact ⟨hdot, by omega, by omega, by omega⟩
+    · rw [PM_c] at ha
+      obtain ⟨rfl, hdot⟩ := ha
+      rw [decimal_PM_digits] at hb
+      have h0 : d1 = 0 := by
+        rw [hd1, tw_eq_zero_iff]
+        cases h : hd t isDigit
+        · rfl
+        · rw [hd_disj decimal_digit_not_dot h] at hdot; cases hdot
+      subst h0
+      right
+      simp only [Nat.zero_add] at hd2
+      exact ⟨by simpa using hdot, by omega, by omega, by omega⟩
+  · rintro (⟨h1, h2⟩ | ⟨hdot, h1, h2, h3⟩)
+    · left
+      exact ⟨m, 0, rfl, decimal_PM_digits.2 ⟨h1, by omega⟩, PM_opt.2 (.inl rfl)⟩
+    · by_cases h0 : 1 ≤ d1
+      · left
+        refine ⟨d1, m - d1, by omega, decimal_PM_digits.2 ⟨h0, by omega⟩, PM_opt.2 (.inr ?_)⟩
+        rw [PM_seq]
+        refine ⟨1, m - d1 - 1, by omega, PM_c.2 ⟨rfl, hdot⟩, PM_star_chr.2 ?_⟩
+        rw [List.drop_drop]; omega
+      · right
+        have h0 : d1 = 0 := by omega
+        subst h0
+        simp only [Nat.zero_add, List.drop_zero] at hd2 hdot
+        exact ⟨1, m - 1, by omega, PM_c.2 ⟨rfl, hdot⟩, decimal_PM_digits.2 ⟨by omega, by omega⟩⟩
+
+theorem decimal_core_hd (t : Bytes) (j : Nat) (h : PM decimalCore t j) :
+    hd t (fun b => isDigit b || b == 46) = true := by
+  rw [decimal_PM_core rfl rfl] at h
+  rcases h with ⟨h1, h2⟩ | ⟨hdot, h1, h2, h3⟩
+  · exact hd_imp (p := isDigit) (by intro b hb; simp [hb]) (tw_pos_iff.1 (by omega))
+  · by_cases h0 : 1 ≤ tw isDigit t
+    · exact hd_imp (p := isDigit) (by intro b hb; simp [hb]) (tw_pos_iff.1 (by omega))
+    · have h0 : tw isDigit t = 0 := by omega
+      rw [h0] at hdot
+      exact hd_imp (p := (· == 46)) (by intro b hb; simp at hb; simp [hb]) (by simpa using hdot)
+
+/-- length and digit count of the mantissa as the model computes them (relative to `s`) -/
+def decimalMant (s : Bytes) : Nat × Nat :=
+  let sg := if hd s isPlusMn = true then 1 else 0
+  let d1 := tw isDigit (s.drop sg)
+  if hd (s.drop (sg + d1)) (· == 46) = true then
+    (sg + d1 + 1 + tw isDigit (s.drop (sg + d1 + 1)), d1 + tw isDigit (s.drop (sg + d1 + 1)))
+  else (sg + d1, d1)
+
+theorem decimal_PM_mantissa {s : Bytes} {m : Nat} :
+    PM mantissa s m ↔ ∃ j, m = (if hd s isPlusMn = true then 1 else 0) + j ∧
+      PM decimalCore (s.drop (if hd s isPlusMn = true then 1 else 0)) j := by
+  rw [decimal_mantissa_eq]
+  exact decimal_PM_opt_seq decimal_sign_not_dd decimal_core_hd
+
+/-- every mantissa match is at most the model's, has digits, and if shorter is followed by a digit or '.' -/
+theorem decimal_mantissa_max {s : Bytes} {m : Nat} (h : PM mantissa s m) :
+    (decimalMant s).2 ≠ 0 ∧ m ≤ (decimalMant s).1 ∧
+      (m < (decimalMant s).1 → hd (s.drop m) (fun b => isDigit b || b == 46) = true) := by
+  rw [decimal_PM_mantissa] at h
+  obtain ⟨j, rfl, h⟩ := h
+  rw [decimal_PM_core rfl rfl] at h
+  unfold decimalMant
+  generalize (if hd s isPlusMn = true then 1 else 0) = sg at *
+  simp only [List.drop_drop, ← Nat.add_assoc] at h
+  have hdig : ∀ b, isDigit b = true → (isDigit b || b == 46) = true := by intro b hb; simp [hb]
+  have hdot : ∀ b, (b == 46) = true → (isDigit b || b == 46) = true := by intro b hb; simp [hb]
+  by_cases hh : hd (s.drop (sg + tw isDigit (s.drop sg))) (· == 46) = true
+  · simp only [hh, if_true]
+    rcases h with ⟨h1, h2⟩ | ⟨_, h1, h2, h3⟩
+    · refine ⟨by omega, by omega, fun _ => ?_⟩
+      rcases Nat.lt_or_ge j (tw isDigit (s.drop sg)) with hlt | hge
+      · have := hd_drop_of_lt_tw hlt
+        rw [List.drop_drop] at this
+        exact hd_imp hdig this
+      · have : j = tw isDigit (s.drop sg) := by omega
+        subst this
+        exact hd_imp hdot hh
+    · refine ⟨by omega, by omega, fun hlt => ?_⟩
+      have : j - (tw isDigit (s.drop sg) + 1) < tw isDigit (s.drop (sg + tw isDigit (s.drop sg) + 1)) := by
+        omega
+      have := hd_drop_of_lt_tw this
+      rw [List.drop_drop] at this
+      have e : sg + tw isDigit (s.drop sg) + 1 + (j - (tw isDigit (s.drop sg) + 1)) = sg + j := by omega
+      rw [e] at this
+      exact hd_imp hdig this
+  · simp only [hh]
+    rcases h with ⟨h1, h2⟩ | ⟨h0, _⟩
+    · refine ⟨by simp; omega, by simp; omega, fun hlt => ?_⟩
+      simp at hlt
+      have := hd_drop_of_lt_tw hlt
+      rw [List.drop_drop] at this
+      exact hd_imp hdig this
+    · exact absurd h0 hh
+
+theorem decimal_mantissa_mem {s : Bytes} (h : (decimalMant s).2 ≠ 0) : PM mantissa s (decimalMant s).1 := by
+  rw [decimal_PM_mantissa]
+  unfold decimalMant at h ⊢
+  generalize (if hd s isPlusMn = true then 1 else 0) = sg at *
+  by_cases hh : hd (s.drop (sg + tw isDigit (s.drop sg))) (· == 46) = true
+  · simp only [hh, if_true] at h ⊢
+    refine ⟨tw isDigit (s.drop sg) + 1 + tw isDigit (s.drop (sg + tw isDigit (s.drop sg) + 1)), by omega, ?_⟩
+    rw [decimal_PM_core rfl rfl]
+    right
+    simp only [List.drop_drop]
+    refine ⟨hh, by omega, ?_, by omega⟩
+    rw [← Nat.add_assoc]; omega
+  · simp only [hh] at h ⊢
+    simp at h
+    refine ⟨tw isDigit (s.drop sg), by simp, ?_⟩
+    rw [decimal_PM_core rfl rfl]
+    left; omega
+
+/-! ## the exponent -/
+def decimalExpTail : Re :=
+  .seq (.chr isE) (.seq (.star (.chr isWs)) (.seq (opt (.chr isPlusMn)) digits))
+
+theorem decimal_exponent_eq : exponent = .seq (.star (.chr isWs)) decimalExpTail := rfl
+
+/-- what `skipExponent` computes, relative to `t` -/
+def decimalExp (t : Bytes) : Nat × Nat :=
+  if hd t isE = true then
+    let w := tw isWs (t.drop 1)
+    let sg := if hd ((t.drop 1).drop w) isPlusMn = true then 1 else 0
+    let d := tw isDigit (((t.drop 1).drop w).drop sg)
+    (1 + w + sg + d, d)
+  else (0, 0)
+
+theorem decimal_sd_hd (t : Bytes) (j : Nat) (h : PM (.seq (opt (.chr isPlusMn)) digits) t j) :
+    hd t (fun b => isPlusMn b || isDigit b) = true := by
+  rw [decimal_PM_opt_seq decimal_sign_not_digit decimal_digits_hd] at h
+  obtain ⟨j', _, h⟩ := h
+  by_cases hs : hd t isPlusMn = true
+  · exact hd_imp (p := isPlusMn) (by intro b hb; simp [hb]) hs
+  · rw [if_neg hs] at h
+    exact hd_imp (p := isDigit) (by intro b hb; simp [hb]) (by simpa using decimal_digits_hd _ _ h)
+
+theorem decimal_PM_expTail {t : Bytes} {j : Nat} :
+    PM decimalExpTail t j ↔ hd t isE = true ∧ (decimalExp t).1 - (decimalExp t).2 + 1 ≤ j ∧ j ≤ (decimalExp t).1 := by
+  unfold decimalExpTail
+  rw [PM_seq]
+  constructor
+  · rintro ⟨a, b, rfl, ha, hb⟩
+    rw [PM_chr] at ha
+    obtain ⟨rfl, hE⟩ := ha
+    rw [decimal_PM_star_seq decimal_ws_not_sd decimal_sd_hd] at hb
+    obtain ⟨b, rfl, hb⟩ := hb
+    rw [decimal_PM_opt_seq decimal_sign_not_digit decimal_digits_hd] at hb
+    obtain ⟨b, rfl, hb⟩ := hb
+    rw [decimal_PM_digits] at hb
+    unfold decimalExp
+    simp only [hE, if_true]
+    exact ⟨trivial, by omega, by omega⟩
+  · rintro ⟨hE, h1, h2⟩
+    unfold decimalExp at h1 h2
+    simp only [hE, if_true] at h1 h2
+    refine ⟨1, j - 1, by omega, PM_chr.2 ⟨rfl, hE⟩, ?_⟩
+    rw [decimal_PM_star_seq decimal_ws_not_sd decimal_sd_hd]
+    refine ⟨j - 1 - tw isWs (t.drop 1), by omega, ?_⟩
+    rw [decimal_PM_opt_seq decimal_sign_not_digit decimal_digits_hd]
+    refine ⟨j - 1 - tw isWs (t.drop 1) - (if hd ((t.drop 1).drop (tw isWs (t.drop 1))) isPlusMn = true then 1 else 0),
+      by omega, ?_⟩
+    rw [decimal_PM_digits]
+    omega
+
+theorem decimal_expTail_hd (t : Bytes) (j : Nat) (h : PM decimalExpTail t j) : hd t isE = true :=
+  (decimal_PM_expTail.1 h).1
+
+theorem decimal_PM_exponent {t : Bytes} {j : Nat} :
+    PM exponent t j ↔ ∃ j', j = tw isWs t + j' ∧ PM decimalExpTail (t.drop (tw isWs t)) j' := by
+  rw [decimal_exponent_eq]
+  exact decimal_PM_star_seq decimal_ws_not_E decimal_expTail_hd
+
+theorem decimal_exponent_hd {t : Bytes} {j : Nat} (h : PM exponent t j) :
+    hd t (fun b => isWs b || isE b) = true := by
+  rw [decimal_PM_exponent] at h
+  obtain ⟨j', _, h⟩ := h
+  have hE := decimal_expTail_hd _ _ h
+  by_cases h0 : 0 < tw isWs t
+  · exact hd_imp (p := isWs) (by intro b hb; simp [hb]) (tw_pos_iff.1 h0)
+  · have h0 : tw isWs t = 0 := by omega
+    rw [h0] at hE
+    exact hd_imp (p := isE) (by intro b hb; simp [hb]) (by simpa using hE)
+
+/-- what `lexDecimal` computes, relative to `s` -/
+def decimalTotal (s : Bytes) : Nat :=
+  if (decimalMant s).2 ≠ 0 then
+    if (decimalExp ((s.drop (decimalMant s).1).drop (tw isWs (s.drop (decimalMant s).1)))).2 ≠ 0 then
+      (decimalMant s).1 + tw isWs (s.drop (decimalMant s).1) +
+        (decimalExp ((s.drop (decimalMant s).1).drop (tw isWs (s.drop (decimalMant s).1)))).1
+    else (decimalMant s).1
+  else 0
+
+theorem decimal_exp_len_pos {t : Bytes} (h : (decimalExp t).2 ≠ 0) :
+    hd t isE = true ∧ (decimalExp t).2 ≤ (decimalExp t).1 := by
+  unfold decimalExp at h ⊢
+  by_cases hE : hd t isE = true
+  · simp only [hE, if_true] at h ⊢; exact ⟨trivial, by omega⟩
+  · simp [hE] at h
+
+theorem decimal_total_max {s : Bytes} {m : Nat} (h : PM decimal s m) : m ≤ decimalTotal s := by
+  unfold decimal at h
+  rw [PM_seq] at h
+  obtain ⟨i, j, rfl, hi, hj⟩ := h
+  obtain ⟨hn, hle, hnext⟩ := decimal_mantissa_max hi
+  unfold decimalTotal
+  rw [if_pos hn]
+  rw [PM_opt] at hj
+  rcases hj with rfl | hj
+  · split <;> omega
+  · have hlt : ¬ i < (decimalMant s).1 := by
+      intro hlt
+      have h1 := hd_disj decimal_dd_not_wsE (hnext hlt)
+      rw [decimal_exponent_hd hj] at h1; cases h1
+    have hi' : i = (decimalMant s).1 := by omega
+    subst hi'
+    rw [decimal_PM_exponent] at hj
+    obtain ⟨j', rfl, hj⟩ := hj
+    rw [decimal_PM_expTail] at hj
+    obtain ⟨_, h1, h2⟩ := hj
+    have : (decimalExp ((s.drop (decimalMant s).1).drop (tw isWs (s.drop (decimalMant s).1)))).2 ≠ 0 := by
+      intro h0; rw [h0] at h1; omega
+    rw [if_pos this]; omega
+
+theorem decimal_total_mem {s : Bytes} (h : 0 < decimalTotal s) : PM decimal s (decimalTotal s) := by
+  unfold decimalTotal at h ⊢
+  by_cases hn : (decimalMant s).2 ≠ 0
+  · rw [if_pos hn] at h ⊢
+    have hm := decimal_mantissa_mem hn
+    unfold decimal
+    rw [PM_seq]
+    by_cases he : (decimalExp ((s.drop (decimalMant s).1).drop (tw isWs (s.drop (decimalMant s).1)))).2 ≠ 0
+    · rw [if_pos he]
+      refine ⟨_, _, Nat.add_assoc _ _ _, hm, PM_opt.2 (.inr ?_)⟩
+      rw [decimal_PM_exponent]
+      refine ⟨_, rfl, ?_⟩
+      rw [decimal_PM_expTail]
+      have := decimal_exp_len_pos he
+      exact ⟨this.1, by omega, Nat.le_refl _⟩
+    · rw [if_neg he]
+      exact ⟨_, 0, rfl, hm, PM_opt.2 (.inl rfl)⟩
+  · rw [if_neg hn] at h; omega
+
+/-! ## the model -/
+theorem decimal_skipMantisa_eq (buf : Bytes) (pos : Nat) :
+    skipMantisa buf pos = (pos + (decimalMant (buf.drop pos)).1, (decimalMant (buf.drop pos)).2) := by
+  unfold skipMantisa decimalMant
+  lex_rel
+  generalize buf.drop pos = s
+  simp only [List.drop_drop]
+  generalize (if hd s isPlusMn = true then 1 else 0) = sg
+  generalize tw isDigit (s.drop sg) = d1
+  generalize tw isDigit (s.drop (sg + d1 + 1)) = d2
+  split
+  · refine Prod.ext ?_ ?_ <;> simp only <;> omega
+  · refine Prod.ext ?_ ?_ <;> simp only <;> omega
+
+theorem decimal_skipExponent_eq (buf : Bytes) (pos : Nat) :
+    skipExponent buf pos = (pos + (decimalExp (buf.drop pos)).1, (decimalExp (buf.drop pos)).2) := by
+  unfold skipExponent decimalExp
+  lex_rel
+  generalize buf.drop pos = s
+  generalize tw isWs (s.drop 1) = w
+  generalize (if hd ((s.drop 1).drop w) isPlusMn = true then 1 else 0) = sg
+  generalize tw isDigit (((s.drop 1).drop w).drop sg) = d
+  split
+  · refine Prod.ext ?_ ?_ <;> simp only <;> omega
+  · rfl
+
+theorem decimal_lexDecimal_eq (buf : Bytes) (pos : Nat) :
+    lexDecimal buf pos =
+      (pos + decimalTotal (buf.drop pos),
+        Token.mk (if decimalTotal (buf.drop pos) > 0 then .decimal else .unknown) pos (decimalTotal (buf.drop pos)),
+        (decimalTotal (buf.drop pos) : Int)) := by
+  unfold lexDecimal
+  simp only [decimal_skipMantisa_eq, decimal_skipExponent_eq]
+  lex_rel
+  apply plain_result_eq
+  unfold decimalTotal
+  generalize buf.drop pos = s
+  generalize (decimalMant s).2 = n
+  generalize (decimalMant s).1 = M
+  generalize tw isWs (s.drop M) = w
+  generalize (decimalExp ((s.drop M).drop w)).2 = ne
+  generalize (decimalExp ((s.drop M).drop w)).1 = le
+  by_cases hn : n = 0
+  · simp [hn]
+  · by_cases he : ne = 0
+    · simp [hn, he]
+    · simp [hn, he]; omega
+
+theorem decimal_spec (buf : Bytes) (pos : Nat) (h : pos ≤ buf.length) :
+    Agrees .decimal buf pos (lexDecimal buf pos) :=
+  agrees_plain' (re := Spec.decimal) (ty := .decimal) rfl (by decide) (decimalTotal (buf.drop pos))
+    (fun _ hm => decimal_total_max hm) decimal_total_mem _ (decimal_lexDecimal_eq buf pos) h
+
+/-! ## string -/
+/-! ## string program data -/
+
+def string_item (q : UInt8) : Re := .alt (.chr (fun b => isAscii7 b && b != q)) (.seq (Re.c q) (Re.c q))
+def string_body (q : UInt8) : Re := .star (string_item q)
+
+theorem string_quoted_eq (q : UInt8) : quoted q = .seq (Re.c q) (.seq (string_body q) (Re.c q)) := rfl
+
+theorem string_PM_item {q b : UInt8} {t : Bytes} {i : Nat} :
+    PM (string_item q) (b :: t) i ↔
+      (i = 1 ∧ (isAscii7 b && b != q) = true) ∨ (i = 2 ∧ (b == q) = true ∧ hd t (· == q) = true) := by
+  unfold string_item
+  rw [PM_alt, PM_chr, PM_seq]
+  simp only [PM_c]
+  constructor
+  · rintro (⟨rfl, h⟩ | ⟨i, j, rfl, ⟨rfl, h1⟩, ⟨rfl, h2⟩⟩)
+    · left; exact ⟨rfl, h⟩
+    · right; exact ⟨rfl, h1, h2⟩
+  · rintro (⟨rfl, h⟩ | ⟨rfl, h1, h2⟩)
+    · left; exact ⟨rfl, h⟩
+    · right; exact ⟨1, 1, rfl, ⟨rfl, h1⟩, ⟨rfl, h2⟩⟩
+
+theorem string_PM_body_zero (q : UInt8) (t : Bytes) : PM (string_body q) t 0 := PM_star.2 (.inl rfl)
+
+theorem string_PM_body_cons {q b : UInt8} {t : Bytes} {j : Nat} :
+    PM (string_body q) (b :: t) j ↔
+      j = 0 ∨ ((isAscii7 b && b != q) = true ∧ ∃ k, j = k + 1 ∧ PM (string_body q) t k) ∨
+      ((b == q) = true ∧ hd t (· == q) = true ∧ ∃ k, j = k + 2 ∧ PM (string_body q) (t.drop 1) k) := by
+  unfold string_body
+  rw [PM_star]
+  constructor
+  · rintro (rfl | ⟨i, k, rfl, _, hi, hk⟩)
+    · left; rfl
+    · rw [string_PM_item] at hi
+      rcases hi with ⟨rfl, h⟩ | ⟨rfl, h1, h2⟩
+      · right; left; exact ⟨h, k, by omega, hk⟩
+      · right; right; exact ⟨h1, h2, k, by omega, hk⟩
+  · rintro (rfl | ⟨h, k, rfl, hk⟩ | ⟨h1, h2, k, rfl, hk⟩)
+    · left; rfl
+    · right; exact ⟨1, k, by omega, by omega, string_PM_item.2 (.inl ⟨rfl, h⟩), hk⟩
+    · right; exact ⟨2, k, by omega, by omega, string_PM_item.2 (.inr ⟨rfl, h1, h2⟩), hk⟩
+
+theorem string_nonq_ne {q b : UInt8} (h : (isAscii7 b && b != q) = true) : (b == q) = false := by
+  simp at h ⊢; exact h.2
+
+/-- `e` is the offset at which the scan of the string body stops: the prefix of length `e` is a
+body, a quote found there is not doubled, and it is the only possible place of a closing quote -/
+def string_SQ (q : UInt8) (t : Bytes) (e : Nat) : Prop :=
+  PM (string_body q) t e ∧
+  (hd (t.drop e) (· == q) = true → hd (t.drop (e + 1)) (· == q) = false) ∧
+  ∀ j, PM (string_body q) t j → hd (t.drop j) (· == q) = true → hd (t.drop (j + 1)) (· == q) = false → j = e
+
+theorem string_SQ_nil (q : UInt8) : string_SQ q [] 0 :=
+  ⟨string_PM_body_zero q [], by simp, fun j _ h => by simp at h⟩
+
+theorem string_SQ_stop {q b : UInt8} {t : Bytes} (h1 : (isAscii7 b && b != q) = false)
+    (h2 : (b == q) = true → hd t (· == q) = false) : string_SQ q (b :: t) 0 := by
+  refine ⟨string_PM_body_zero q _, fun h => h2 h, ?_⟩
+  intro j hj ha hb
+  rw [string_PM_body_cons] at hj
+  rcases hj with rfl | ⟨h, _⟩ | ⟨h3, h4, _⟩
+  · rfl
+  · rw [h1] at h; exact absurd h (by simp)
+  · rw [h2 h3] at h4; exact absurd h4 (by simp)
+
+theorem string_SQ_step1 {q b : UInt8} {t : Bytes} {e : Nat} (h : (isAscii7 b && b != q) = true)
+    (hs : string_SQ q t e) : string_SQ q (b :: t) (e + 1) := by
+  refine ⟨string_PM_body_cons.2 (.inr (.inl ⟨h, e, rfl, hs.1⟩)), hs.2.1, ?_⟩
+  intro j hj ha hb
+  rw [string_PM_body_cons] at hj
+  rcases hj with rfl | ⟨_, k, rfl, hk⟩ | ⟨h3, _⟩
+  · have : (b == q) = true := ha
+    rw [string_nonq_ne h] at this; exact absurd this (by simp)
+  · rw [hs.2.2 k hk ha hb]
+  · rw [string_nonq_ne h] at h3; exact absurd h3 (by simp)
+
+theorem string_SQ_step2 {q b c : UInt8} {t : Bytes} {e : Nat} (hb : (b == q) = true) (hc : (c == q) = true)
+    (hs : string_SQ q t e) : string_SQ q (b :: c :: t) (e + 2) := by
+  refine ⟨string_PM_body_cons.2 (.inr (.inr ⟨hb, hc, e, rfl, hs.1⟩)), hs.2.1, ?_⟩
+  intro j hj ha hb'
+  rw [string_PM_body_cons] at hj
+  rcases hj with rfl | ⟨h, _⟩ | ⟨_, _, k, rfl, hk⟩
+  · have : (c == q) = false := hb'
+    rw [hc] at this; exact absurd this (by simp)
+  · rw [string_nonq_ne h] at hb; exact absurd hb (by simp)
+  · rw [hs.2.2 k hk ha hb']
+
+theorem string_skipQuote (buf : Bytes) (q : UInt8) (fuel p : Nat) (h : (buf.drop p).length ≤ fuel) :
+    ∃ e, skipQuote buf q fuel p = p + e ∧ string_SQ q (buf.drop p) e := by
+  induction fuel generalizing p with
+  | zero =>
+    have : buf.drop p = [] := List.length_eq_zero_iff.1 (by omega)
+    exact ⟨0, rfl, this ▸ string_SQ_nil q⟩
+  | succ fuel ih =>
+    rw [skipQuote, getElem?_eq_head_drop]
+    simp only [peekP_eq]
+    have e1 : buf.drop (p + 1) = (buf.drop p).drop 1 := drop_add ..
+    have e2 : buf.drop (p + 2) = (buf.drop p).drop 2 := drop_add ..
+    have ih1 := ih (p + 1)
+    have ih2 := ih (p + 2)
+    rw [e1] at ih1 ⊢
+    rw [e2] at ih2
+    generalize buf.drop p = t at *
+    cases t with
+    | nil => exact ⟨0, rfl, string_SQ_nil q⟩
+    | cons b t =>
+      simp only [List.head?_cons]
+      by_cases hb : (isAscii7 b && b != q) = true
+      · rw [if_pos hb]
+        obtain ⟨e, he, hs⟩ := ih1 (by simp at h ⊢; omega)
+        exact ⟨e + 1, by rw [he]; omega, string_SQ_step1 hb hs⟩
+      · rw [if_neg hb]
+        have hb' : (isAscii7 b && b != q) = false := by simpa using hb
+        by_cases hq : (b == q) = true
+        · rw [if_pos hq]
+          by_cases hq2 : hd ((b :: t).drop 1) (· == q) = true
+          · rw [if_pos hq2]
+            cases t with
+            | nil => simp at hq2
+            | cons c t =>
+              obtain ⟨e, he, hs⟩ := ih2 (by simp at h ⊢; omega)
+              exact ⟨e + 2, by rw [he]; omega, string_SQ_step2 hq hq2 hs⟩
+          · rw [if_neg hq2]
+            exact ⟨0, rfl, string_SQ_stop hb' (fun _ => by simpa using hq2)⟩
+        · rw [if_neg hq]
+          exact ⟨0, rfl, string_SQ_stop hb' (fun h => absurd h hq)⟩
+
+/-! ### the specification side -/
+
+theorem string_getLast_unique {P : Nat → Bool} {k n0 : Nat} (h0 : n0 ≤ k) (hP : P n0 = true)
+    (hu : ∀ n, n ≤ k → P n = true → n = n0) :
+    ((List.range (k + 1)).filter P).getLast? = some n0 := by
+  cases hl : ((List.range (k + 1)).filter P).getLast? with
+  | none =>
+    rw [List.getLast?_eq_none_iff] at hl
+    have : n0 ∈ (List.range (k + 1)).filter P := by
+      rw [List.mem_filter, List.mem_range]; exact ⟨by omega, hP⟩
+    rw [hl] at this; simp at this
+  | some n =>
+    have := List.mem_of_getLast? hl
+    rw [List.mem_filter, List.mem_range] at this
+    rw [hu n (by omega) this.2]
+
+theorem string_getLast_none {P : Nat → Bool} {k : Nat} (h : ∀ n, n ≤ k → P n = false) :
+    ((List.range (k + 1)).filter P).getLast? = none := by
+  rw [List.getLast?_eq_none_iff, List.filter_eq_nil_iff]
+  intro n hn
+  rw [List.mem_range] at hn
+  simp [h n (by omega)]
+
+theorem string_cand_iff {q : UInt8} {s : Bytes} {n : Nat} (hn : n ≤ s.length) :
+    ((quoted q).accepts (s.take n) && s[n]? != some q) = true ↔
+      PM (quoted q) s n ∧ hd (s.drop n) (· == q) = false := by
+  rw [Bool.and_eq_true, accepts_iff_matches, getElem?_eq_head_drop]
+  unfold PM
+  have : ((s.drop n).head? != some q) = true ↔ hd (s.drop n) (· == q) = false := by
+    cases s.drop n <;> simp
+  rw [this]
+  constructor
+  · rintro ⟨h1, h2⟩; exact ⟨⟨hn, h1⟩, h2⟩
+  · rintro ⟨⟨_, h1⟩, h2⟩; exact ⟨h1, h2⟩
+
+theorem string_PM_quoted {q : UInt8} {s : Bytes} {n : Nat} :
+    PM (quoted q) s n ↔ hd s (· == q) = true ∧
+      ∃ j, n = j + 2 ∧ PM (string_body q) (s.drop 1) j ∧ hd ((s.drop 1).drop j) (· == q) = true := by
+  rw [string_quoted_eq, PM_seq]
+  simp only [PM_seq, PM_c]
+  constructor
+  · rintro ⟨i, m, rfl, ⟨rfl, h0⟩, j, k, rfl, hj, rfl, hk⟩
+    exact ⟨h0, j, by omega, hj, hk⟩
+  · rintro ⟨h0, j, rfl, hj, hk⟩
+    exact ⟨1, j + 1, by omega, ⟨rfl, h0⟩, j, 1, rfl, hj, rfl, hk⟩
+
+theorem string_longest_none_hd {q : UInt8} {s : Bytes} (h : hd s (· == q) = false) :
+    longestString q s = none := by
+  unfold longestString
+  apply string_getLast_none
+  intro n hn
+  apply Bool.eq_false_iff.2
+  intro hc
+  rw [string_cand_iff hn, string_PM_quoted] at hc
+  rw [h] at hc; exact absurd hc.1.1 (by simp)
+
+theorem string_longest_none_scan {q a : UInt8} {u : Bytes} {e : Nat} (hs : string_SQ q u e)
+    (he : hd (u.drop e) (· == q) = false) : longestString q (a :: u) = none := by
+  unfold longestString
+  apply string_getLast_none
+  intro n hn
+  apply Bool.eq_false_iff.2
+  intro hc
+  rw [string_cand_iff hn, string_PM_quoted] at hc
+  obtain ⟨⟨_, j, rfl, hj, hq⟩, hnq⟩ := hc
+  have : j = e := hs.2.2 j hj hq hnq
+  subst this
+  have hq' : hd (u.drop j) (· == q) = true := hq
+  rw [he] at hq'; exact absurd hq' (by simp)
+
+theorem string_longest_some {q a : UInt8} {u : Bytes} {e : Nat} (ha : (a == q) = true)
+    (hs : string_SQ q u e) (he : hd (u.drop e) (· == q) = true) :
+    longestString q (a :: u) = some (e + 2) := by
+  unfold longestString
+  have hlen : e < u.length := hd_drop_length he
+  apply string_getLast_unique
+  · simp; omega
+  · rw [string_cand_iff (by simp; omega), string_PM_quoted]
+    exact ⟨⟨ha, e, rfl, hs.1, he⟩, hs.2.1 he⟩
+  · intro n hn hc
+    rw [string_cand_iff hn, string_PM_quoted] at hc
+    obtain ⟨⟨_, j, rfl, hj, hq⟩, hnq⟩ := hc
+    rw [hs.2.2 j hj hq hnq]
+
+/-- one branch of `lexString` -/
+theorem string_go {buf : Bytes} {pos : Nat} {q : UInt8} (h : pos ≤ buf.length)
+    (hq : hd (buf.drop pos) (· == q) = true) :
+    (∃ e, skipQuote buf q (buf.length - pos) (pos + 1) = pos + 1 + e ∧
+        hd (buf.drop (pos + 1 + e)) (· == q) = true ∧
+        longestString q (buf.drop pos) = some (e + 2) ∧ pos + (e + 2) ≤ buf.length) ∨
+    (hd (buf.drop (skipQuote buf q (buf.length - pos) (pos + 1))) (· == q) = false ∧
+        longestString q (buf.drop pos) = none) := by
+  obtain ⟨e, he, hs⟩ := string_skipQuote buf q (buf.length - pos) (pos + 1) (by simp; omega)
+  have e1 : buf.drop (pos + 1 + e) = ((buf.drop pos).drop 1).drop e := by
+    rw [drop_add, drop_add]
+  have e2 : buf.drop (pos + 1) = (buf.drop pos).drop 1 := drop_add ..
+  have hl := length_drop_le h
+  by_cases hc : hd (buf.drop (pos + 1 + e)) (· == q) = true
+  · left
+    refine ⟨e, he, hc, ?_⟩
+    rw [e1] at hc
+    rw [e2] at hs
+    generalize buf.drop pos = s at *
+    cases s with
+    | nil => simp at hq
+    | cons a u =>
+      have ha : (a == q) = true := hq
+      have hc2 : hd (u.drop e) (· == q) = true := hc
+      have hlen : e < u.length := hd_drop_length hc2
+      refine ⟨string_longest_some ha hs hc2, ?_⟩
+      simp at hl; omega
+  · right
+    rw [he]
+    have hc' : hd (buf.drop (pos + 1 + e)) (· == q) = false := by simpa using hc
+    refine ⟨hc', ?_⟩
+    rw [e1] at hc'
+    rw [e2] at hs
+    generalize buf.drop pos = s at *
+    cases s with
+    | nil => simp at hq
+    | cons a u => exact string_longest_none_scan hs hc'
+
+theorem string_specToken (s : Bytes) : specToken .string s =
+    match longestString 34 s with
+    | some n => some ⟨n, .doubleQuote, 0, n⟩
+    | none => match longestString 39 s with
+      | some n => some ⟨n, .singleQuote, 0, n⟩
+      | none => none := rfl
+
+theorem string_hd_excl {s : Bytes} {a b : UInt8} (hab : a ≠ b) (h : hd s (· == a) = true) :
+    hd s (· == b) = false := by
+  cases s with
+  | nil => rfl
+  | cons c s =>
+    simp at h ⊢
+    subst h; exact hab
+
+theorem string_spec (buf : Bytes) (pos : Nat) (h : pos ≤ buf.length) :
+    Agrees .string buf pos (lexString buf pos) := by
+  unfold Agrees lexString
+  rw [string_specToken]
+  simp only [peekP_eq]
+  by_cases h34 : hd (buf.drop pos) (· == 34) = true
+  · rw [if_pos h34]
+    rcases string_go h h34 with ⟨e, he, hc, hl, hlen⟩ | ⟨hc, hl⟩
+    · rw [he, if_pos hc, hl]
+      simp [mkTok]; omega
+    · rw [if_neg (by simpa using hc), hl,
+        string_longest_none_hd (string_hd_excl (a := 34) (b := 39) (by decide) h34)]
+      simp [mkTok]
+  · rw [if_neg h34]
+    have h34' : hd (buf.drop pos) (· == 34) = false := by simpa using h34
+    rw [string_longest_none_hd h34']
+    by_cases h39 : hd (buf.drop pos) (· == 39) = true
+    · rw [if_pos h39]
+      rcases string_go h h39 with ⟨e, he, hc, hl, hlen⟩ | ⟨hc, hl⟩
+      · rw [he, if_pos hc, hl]
+        simp [mkTok]; omega
+      · rw [if_neg (by simpa using hc), hl]
+        simp [mkTok]
+    · rw [if_neg h39]
+      have h39' : hd (buf.drop pos) (· == 39) = false := by simpa using h39
+      rw [string_longest_none_hd h39']
+      simp [mkTok]
+
+/-! ## suffix -/
+/-! ## byte-class facts -/
+
+theorem suffix_alpha_sd : ∀ b : UInt8, isAlpha b = true → (b == 47 || b == 46) = false := by
+  intro b h; simp [isAlpha, isUpper, isLower] at *; grind
+theorem suffix_digit_sd : ∀ b : UInt8, isDigit b = true → (b == 47 || b == 46) = false := by
+  intro b h; simp [isDigit] at *; grind
+theorem suffix_minus_sd : ∀ b : UInt8, (b == 45) = true → (b == 47 || b == 46) = false := by
+  intro b h; simp at *; grind
+theorem suffix_alpha_minus : ∀ b : UInt8, isAlpha b = true → (b == 45) = false := by
+  intro b h; simp [isAlpha, isUpper, isLower] at *; grind
+theorem suffix_alpha_digit : ∀ b : UInt8, isAlpha b = true → isDigit b = false := by
+  intro b h; simp [isAlpha, isUpper, isLower, isDigit] at *; grind
+theorem suffix_digit_minus : ∀ b : UInt8, isDigit b = true → (b == 45) = false := by
+  intro b h; simp [isDigit] at *; grind
+theorem suffix_slash_alpha : ∀ b : UInt8, (b == 47) = true → isAlpha b = false := by
+  intro b h; simp [isAlpha, isUpper, isLower] at *; grind
+
+/-! ## the tail `-? d?` -/
+
+/-- greedy length of `-? d?` -/
+def suffix_gt (t : Bytes) : Nat :=
+  (if hd t (· == 45) = true then 1 else 0) +
+    (if hd (t.drop (if hd t (· == 45) = true then 1 else 0)) isDigit = true then 1 else 0)
+
+theorem suffix_PM_tail {t : Bytes} {j : Nat} :
+    PM suffixTail t j ↔ ∃ i k, j = i + k ∧ (i = 0 ∨ (i = 1 ∧ hd t (· == 45) = true)) ∧
+      (k = 0 ∨ (k = 1 ∧ hd (t.drop i) isDigit = true)) := by
+  unfold suffixTail
+  rw [PM_seq]
+  simp only [PM_opt, PM_c, PM_chr]
+
+theorem suffix_tail_greedy (t : Bytes) : PM suffixTail t (suffix_gt t) := by
+  rw [suffix_PM_tail]
+  unfold suffix_gt
+  refine ⟨_, _, rfl, ?_, ?_⟩
+  · by_cases h : hd t (· == 45) = true <;> simp [h]
+  · split <;> simp_all
+
+/-- any other choice for the tail is shorter and is followed by '-' or a digit -/
+theorem suffix_tail_max {t : Bytes} {j : Nat} (h : PM suffixTail t j) :
+    j ≤ suffix_gt t ∧ (j < suffix_gt t → hd (t.drop j) (fun b => b == 47 || b == 46) = false) := by
+  rw [suffix_PM_tail] at h
+  obtain ⟨i, k, rfl, hi, hk⟩ := h
+  unfold suffix_gt
+  rcases hi with rfl | ⟨rfl, hi⟩
+  · rcases hk with rfl | ⟨rfl, hk⟩
+    · refine ⟨by omega, ?_⟩
+      by_cases hm : hd t (· == 45) = true
+      · intro _; simpa using hd_disj suffix_minus_sd hm
+      · by_cases hdg : hd t isDigit = true
+        · intro _; simpa using hd_disj suffix_digit_sd hdg
+        · simp [hm, hdg]
+    · simp only [List.drop_zero] at hk
+      have hm := hd_disj suffix_digit_minus hk
+      simp [hm, hk]
+  · rcases hk with rfl | ⟨rfl, hk⟩
+    · simp only [hi, if_true]
+      refine ⟨by omega, ?_⟩
+      by_cases hdg : hd (t.drop 1) isDigit = true
+      · intro _; simpa using hd_disj suffix_digit_sd hdg
+      · rw [if_neg hdg]; omega
+    · simp only [hi, if_true, hk]; omega
+
+theorem suffix_gt_of_alpha {t : Bytes} (h : hd t isAlpha = true) : suffix_gt t = 0 := by
+  unfold suffix_gt
+  simp [hd_disj suffix_alpha_minus h, hd_disj suffix_alpha_digit h]
+
+/-! ## `alpha* tail` -/
+
+def suffix_ga (t : Bytes) : Nat := tw isAlpha t + suffix_gt (t.drop (tw isAlpha t))
+
+/-- `i0` alphas then a tail choice `k`: at most the greedy length, and if shorter the star must stop -/
+theorem suffix_at_max {t : Bytes} {i0 k : Nat} (hi : i0 ≤ tw isAlpha t) (hk : PM suffixTail (t.drop i0) k) :
+    i0 + k ≤ suffix_ga t ∧
+      (i0 + k < suffix_ga t → hd (t.drop (i0 + k)) (fun b => b == 47 || b == 46) = false) := by
+  unfold suffix_ga
+  by_cases h : i0 < tw isAlpha t
+  · have ha := hd_drop_of_lt_tw h
+    have := suffix_tail_max hk
+    rw [suffix_gt_of_alpha ha] at this
+    have hk0 : k = 0 := by omega
+    subst hk0
+    exact ⟨by omega, fun _ => hd_disj suffix_alpha_sd ha⟩
+  · have e : i0 = tw isAlpha t := by omega
+    subst e
+    have := suffix_tail_max hk
+    rw [List.drop_drop] at this
+    exact ⟨by omega, fun h => this.2 (by omega)⟩
+
+theorem suffix_at_greedy (t : Bytes) :
+    PM suffixTail (t.drop (tw isAlpha t)) (suffix_gt (t.drop (tw isAlpha t))) := suffix_tail_greedy _
+
+/-! ## the loop item `[/.] alpha* tail` -/
+
+def suffix_item : Re :=
+  .seq (.chr (fun b => b == 47 || b == 46)) (.seq (.star (.chr isAlpha)) suffixTail)
+
+theorem suffix_PM_item {t : Bytes} {j : Nat} :
+    PM suffix_item t j ↔ hd t (fun b => b == 47 || b == 46) = true ∧
+      ∃ i k, j = 1 + (i + k) ∧ i ≤ tw isAlpha (t.drop 1) ∧ PM suffixTail ((t.drop 1).drop i) k := by
+  unfold suffix_item
+  rw [PM_seq]
+  simp only [PM_chr, PM_seq, PM_star_chr]
+  constructor
+  · rintro ⟨a, b, rfl, ⟨rfl, h⟩, i, k, rfl, h1, h2⟩
+    exact ⟨h, i, k, rfl, h1, h2⟩
+  · rintro ⟨h, i, k, rfl, h1, h2⟩
+    exact ⟨1, i + k, rfl, ⟨rfl, h⟩, i, k, rfl, h1, h2⟩
+
+theorem suffix_item_greedy {t : Bytes} (h : hd t (fun b => b == 47 || b == 46) = true) :
+    PM suffix_item t (1 + suffix_ga (t.drop 1)) := by
+  rw [suffix_PM_item]
+  exact ⟨h, _, _, rfl, Nat.le_refl _, suffix_at_greedy _⟩
+
+theorem suffix_item_max {t : Bytes} {j : Nat} (h : PM suffix_item t j) :
+    j ≤ 1 + suffix_ga (t.drop 1) ∧
+      (j < 1 + suffix_ga (t.drop 1) → hd (t.drop j) (fun b => b == 47 || b == 46) = false) := by
+  rw [suffix_PM_item] at h
+  obtain ⟨_, i, k, rfl, h1, h2⟩ := h
+  have := suffix_at_max h1 h2
+  rw [List.drop_drop] at this
+  exact ⟨by omega, fun h => this.2 (by omega)⟩
+
+theorem suffix_star_stop {t : Bytes} {m : Nat} (h : hd t (fun b => b == 47 || b == 46) = false)
+    (hm : PM (.star suffix_item) t m) : m = 0 := by
+  rw [PM_star] at hm
+  rcases hm with rfl | ⟨i, j, rfl, _, hi, _⟩
+  · rfl
+  · rw [suffix_PM_item] at hi
+    rw [hi.1] at h; cases h
+
+theorem suffix_skipTail (buf : Bytes) (q : Nat) :
+    skipOne buf (skipChr buf q 45) isDigit = q + suffix_gt (buf.drop q) := by
+  lex_rel; unfold suffix_gt; omega
+
+theorem suffix_skipAt (buf : Bytes) (q : Nat) :
+    skipOne buf (skipChr buf (skipAlpha buf q) 45) isDigit = q + suffix_ga (buf.drop q) := by
+  rw [suffix_skipTail]; lex_rel; unfold suffix_ga; omega
+
+/-- the `while (skipSlashDot)` loop computes the longest match of `item*` -/
+theorem suffix_loop (buf : Bytes) (fuel p : Nat) (hf : buf.length - p < fuel) :
+    ∃ L, suffixLoop buf fuel p = p + L ∧ PM (.star suffix_item) (buf.drop p) L ∧
+      ∀ m, PM (.star suffix_item) (buf.drop p) m → m ≤ L := by
+  induction fuel generalizing p with
+  | zero => omega
+  | succ fuel ih =>
+    rw [suffixLoop, peekP_eq]
+    by_cases hh : hd (buf.drop p) (fun b => b == 47 || b == 46) = true
+    · have hlen := hd_drop_length hh
+      simp only [hh, if_true, suffix_skipAt]
+      obtain ⟨L, e1, e2, e3⟩ := ih (p + 1 + suffix_ga (buf.drop (p + 1))) (by omega)
+      rw [e1]
+      rw [Nat.add_assoc p, drop_add] at e2 e3
+      rw [drop_add buf p 1] at e2 e3 ⊢
+      generalize buf.drop p = s at hh e2 e3 ⊢
+      refine ⟨1 + suffix_ga (s.drop 1) + L, by omega, ?_, ?_⟩
+      · exact PM_star.2 (.inr ⟨_, _, rfl, by omega, suffix_item_greedy hh, e2⟩)
+      · intro m hm
+        rcases PM_star.1 hm with rfl | ⟨i, j, rfl, _, hi, hj⟩
+        · omega
+        · have hmax := suffix_item_max hi
+          by_cases hlt : i < 1 + suffix_ga (s.drop 1)
+          · have := suffix_star_stop (hmax.2 hlt) hj
+            omega
+          · have e : i = 1 + suffix_ga (s.drop 1) := by omega
+            subst e
+            have := e3 j hj
+            omega
+    · have hh' : hd (buf.drop p) (fun b => b == 47 || b == 46) = false := by simpa using hh
+      refine ⟨0, ?_, ?_, ?_⟩
+      · simp [hh']
+      · exact PM_star.2 (.inl rfl)
+      · intro m hm; have := suffix_star_stop hh' hm; omega
+
+/-! ## the body `alpha+ tail item*` -/
+
+def suffix_body : Re := .seq (plus (.chr isAlpha)) (.seq suffixTail (.star suffix_item))
+
+theorem suffix_eq : Spec.suffix = .seq (opt (Re.c 47)) (opt suffix_body) := rfl
+
+theorem suffix_PM_body {t : Bytes} {j : Nat} :
+    PM suffix_body t j ↔ ∃ i k l, j = i + k + l ∧ 1 ≤ i ∧ i ≤ tw isAlpha t ∧
+      PM suffixTail (t.drop i) k ∧ PM (.star suffix_item) (t.drop (i + k)) l := by
+  unfold suffix_body
+  simp only [PM_seq, PM_plus_chr, List.drop_drop]
+  constructor
+  · rintro ⟨i, _, rfl, ⟨h1, h2⟩, k, l, rfl, h3, h4⟩
+    exact ⟨i, k, l, by omega, h1, h2, h3, h4⟩
+  · rintro ⟨i, k, l, rfl, h1, h2, h3, h4⟩
+    exact ⟨i, k + l, by omega, ⟨h1, h2⟩, k, l, rfl, h3, h4⟩
+
+theorem suffix_body_alpha {t : Bytes} {j : Nat} (h : PM suffix_body t j) : hd t isAlpha = true := by
+  rw [suffix_PM_body] at h
+  obtain ⟨i, k, l, rfl, h1, h2, _, _⟩ := h
+  exact tw_pos_iff.1 (by omega)
+
+theorem suffix_body_max {t : Bytes} {j L : Nat}
+    (hL : ∀ m, PM (.star suffix_item) (t.drop (suffix_ga t)) m → m ≤ L) (h : PM suffix_body t j) :
+    j ≤ suffix_ga t + L := by
+  rw [suffix_PM_body] at h
+  obtain ⟨i, k, l, rfl, h1, h2, h3, h4⟩ := h
+  have hmax := suffix_at_max h2 h3
+  by_cases hlt : i + k < suffix_ga t
+  · have := suffix_star_stop (hmax.2 hlt) h4; omega
+  · have e : i + k = suffix_ga t := by omega
+    rw [e] at h4; have := hL l h4; omega
+
+theorem suffix_body_greedy {t : Bytes} {L : Nat} (ha : hd t isAlpha = true)
+    (hL : PM (.star suffix_item) (t.drop (suffix_ga t)) L) : PM suffix_body t (suffix_ga t + L) := by
+  rw [suffix_PM_body]
+  exact ⟨tw isAlpha t, _, L, rfl, tw_pos_iff.2 ha, Nat.le_refl _, suffix_at_greedy t, hL⟩
+
+/-- longest match of `body?` at `t` -/
+theorem suffix_optbody (t : Bytes) (L : Nat) (hL1 : PM (.star suffix_item) (t.drop (suffix_ga t)) L)
+    (hL2 : ∀ m, PM (.star suffix_item) (t.drop (suffix_ga t)) m → m ≤ L) :
+    PM (opt suffix_body) t (if hd t isAlpha = true then suffix_ga t + L else 0) ∧
+      ∀ m, PM (opt suffix_body) t m → m ≤ (if hd t isAlpha = true then suffix_ga t + L else 0) := by
+  by_cases ha : hd t isAlpha = true
+  · simp only [ha, if_true]
+    refine ⟨PM_opt.2 (.inr (suffix_body_greedy ha hL1)), ?_⟩
+    intro m hm
+    rcases PM_opt.1 hm with rfl | hm
+    · omega
+    · exact suffix_body_max hL2 hm
+  · simp only [ha]
+    refine ⟨PM_opt.2 (.inl rfl), ?_⟩
+    intro m hm
+    rcases PM_opt.1 hm with rfl | hm
+    · omega
+    · exact absurd (suffix_body_alpha hm) ha
+
+/-- the whole regex `/? body?` -/
+theorem suffix_whole (s : Bytes) (L : Nat)
+    (hL1 : PM (.star suffix_item)
+      ((s.drop (if hd s (· == 47) = true then 1 else 0)).drop
+        (suffix_ga (s.drop (if hd s (· == 47) = true then 1 else 0)))) L)
+    (hL2 : ∀ m, PM (.star suffix_item)
+      ((s.drop (if hd s (· == 47) = true then 1 else 0)).drop
+        (suffix_ga (s.drop (if hd s (· == 47) = true then 1 else 0)))) m → m ≤ L) :
+    PM Spec.suffix s ((if hd s (· == 47) = true then 1 else 0) +
+        (if hd (s.drop (if hd s (· == 47) = true then 1 else 0)) isAlpha = true
+          then suffix_ga (s.drop (if hd s (· == 47) = true then 1 else 0)) + L else 0)) ∧
+      ∀ m, PM Spec.suffix s m → m ≤ ((if hd s (· == 47) = true then 1 else 0) +
+        (if hd (s.drop (if hd s (· == 47) = true then 1 else 0)) isAlpha = true
+          then suffix_ga (s.drop (if hd s (· == 47) = true then 1 else 0)) + L else 0)) := by
+  have hob := suffix_optbody _ L hL1 hL2
+  rw [suffix_eq]
+  by_cases hs : hd s (· == 47) = true
+  · simp only [hs, if_true] at hob ⊢
+    refine ⟨PM_seq.2 ⟨1, _, rfl, PM_opt.2 (.inr (PM_c.2 ⟨rfl, hs⟩)), hob.1⟩, ?_⟩
+    intro m hm
+    obtain ⟨i, j, rfl, hi, hj⟩ := PM_seq.1 hm
+    rcases PM_opt.1 hi with rfl | hi
+    · rcases PM_opt.1 hj with rfl | hj
+      · omega
+      · have := suffix_body_alpha hj
+        rw [List.drop_zero, hd_disj suffix_slash_alpha hs] at this
+        cases this
+    · obtain ⟨rfl, _⟩ := PM_c.1 hi
+      have := hob.2 j hj
+      omega
+  · simp only [hs] at hob ⊢
+    refine ⟨PM_seq.2 ⟨0, _, rfl, PM_opt.2 (.inl rfl), hob.1⟩, ?_⟩
+    intro m hm
+    obtain ⟨i, j, rfl, hi, hj⟩ := PM_seq.1 hm
+    rcases PM_opt.1 hi with rfl | hi
+    · have := hob.2 j hj
+      omega
+    · exact absurd (PM_c.1 hi).2 hs
+
+/-! ## the model -/
+
+theorem suffix_result (pos p n : Nat) (hp : p = pos + n) :
+    (if ((p : Int) - pos) > 0 then (p, Token.mk .suffix pos ((p : Int) - pos), (p : Int) - pos)
+      else (pos, Token.mk .unknown pos 0, (0 : Int)))
+      = (pos + n, Token.mk (if n > 0 then TokType.suffix else .unknown) pos n, (n : Int)) := by
+  subst hp
+  have e : ((pos + n : Nat) : Int) - pos = n := by omega
+  rw [e]
+  by_cases hn : n = 0
+  · subst hn; simp
+  · have h2 : n > 0 := by omega
+    simp [h2]
+
+theorem suffix_bne (x t : Nat) : ((x + t != x) = true) ↔ 0 < t := by
+  simp; omega
+
+theorem suffix_model (buf : Bytes) (pos : Nat) :
+    ∃ n, lexSuffix buf pos = (pos + n, Token.mk (if n > 0 then TokType.suffix else .unknown) pos n, (n : Int)) ∧
+      PM Spec.suffix (buf.drop pos) n ∧ ∀ m, PM Spec.suffix (buf.drop pos) m → m ≤ n := by
+  obtain ⟨L, e1, e2, e3⟩ := suffix_loop buf
+    (buf.length - (pos + (if hd (buf.drop pos) (· == 47) = true then 1 else 0) +
+      suffix_ga ((buf.drop pos).drop (if hd (buf.drop pos) (· == 47) = true then 1 else 0))) + 1)
+    (pos + (if hd (buf.drop pos) (· == 47) = true then 1 else 0) +
+      suffix_ga ((buf.drop pos).drop (if hd (buf.drop pos) (· == 47) = true then 1 else 0))) (by omega)
+  rw [drop_add, drop_add] at e2 e3
+  have hw := suffix_whole (buf.drop pos) L e2 e3
+  refine ⟨_, ?_, hw.1, hw.2⟩
+  unfold lexSuffix
+  simp only [suffix_skipAt]
+  lex_rel
+  apply suffix_result
+  by_cases ha : hd ((buf.drop pos).drop (if hd (buf.drop pos) (· == 47) = true then 1 else 0)) isAlpha = true
+  · have := tw_pos_iff.2 ha
+    simp only [suffix_bne, this, if_true, e1, ha]
+    omega
+  · have := tw_eq_zero_iff.2 (Bool.eq_false_iff.2 ha)
+    simp only [suffix_bne, this, Nat.lt_irrefl, if_false, ha, Bool.false_eq_true]
+    omega
+
+theorem suffix_spec (buf : Bytes) (pos : Nat) (h : pos ≤ buf.length) :
+    Agrees .suffix buf pos (lexSuffix buf pos) := by
+  obtain ⟨n, hn, hmem, hmax⟩ := suffix_model buf pos
+  exact agrees_plain' (re := Spec.suffix) (ty := .suffix) rfl (by decide) n hmax (fun _ => hmem) _ hn h
+
+/-! ## block -/
+/-- the loop over the length digits, over `buf.drop p` -/
+theorem block_blockDigits_eq (buf : Bytes) (i p acc : Nat) :
+    blockDigits buf i p acc =
+      (p + min i (tw isDigit (buf.drop p)), i - min i (tw isDigit (buf.drop p)),
+       ((buf.drop p).take (min i (tw isDigit (buf.drop p)))).foldl (fun a b => a * 10 + (b.toNat - 48)) acc) := by
+  induction i generalizing p acc with
+  | zero => simp [blockDigits]
+  | succ i ih =>
+    rw [blockDigits, getElem?_eq_head_drop]
+    cases hs : buf.drop p with
+    | nil => simp
+    | cons b t =>
+      have ht : buf.drop (p+1) = t := by rw [drop_add, hs]; simp
+      simp only [List.head?_cons]
+      by_cases hb : isDigit b = true
+      · rw [if_pos hb, ih, ht, tw_cons, if_pos hb]
+        have : min (i+1) (1 + tw isDigit t) = (min i (tw isDigit t)) + 1 := by omega
+        rw [this]; simp; omega
+      · rw [if_neg hb, tw_cons, if_neg hb]; simp
+
+theorem block_digit_le (d : UInt8) (h : isDigit d = true) : d.toNat - 48 ≤ 9 := by
+  simp [isDigit, UInt8.le_iff_toNat_le] at h
+  omega
+
+theorem block_digit_pos (d : UInt8) (h : isDigit d = true) (h2 : (d != 48) = true) : 1 ≤ d.toNat - 48 := by
+  simp [isDigit, UInt8.le_iff_toNat_le] at h
+  have : d.toNat ≠ 48 := by
+    intro e
+    apply (bne_iff_ne.1 h2)
+    exact UInt8.toNat_inj.1 e
+  omega
+
+
+theorem block_foldl_bound (ds : Bytes) (acc : Nat) (h : ds.all isDigit = true) :
+    ds.foldl (fun a b => a * 10 + (b.toNat - 48)) acc + 1 ≤ (acc + 1) * 10 ^ ds.length := by
+  induction ds generalizing acc with
+  | nil => simp
+  | cons b t ih =>
+    simp at h
+    have hb := block_digit_le b h.1
+    have := ih (acc * 10 + (b.toNat - 48)) (by simpa using h.2)
+    simp only [List.foldl_cons, List.length_cons]
+    calc _ ≤ (acc*10 + (b.toNat-48) + 1) * 10^t.length := this
+      _ ≤ ((acc+1) * 10) * 10^t.length := Nat.mul_le_mul_right _ (by omega)
+      _ = _ := by rw [Nat.pow_succ, Nat.mul_assoc, Nat.mul_comm 10]
+
+theorem block_take_all {p : UInt8 → Bool} {s : Bytes} {k : Nat} :
+    (s.take k).all p = true ↔ min k s.length ≤ tw p s := by
+  rw [← all_take_iff]
+  have : s.take (min k s.length) = s.take k := by
+    rw [List.take_eq_take_iff]; omega
+  rw [this]
+  constructor
+  · intro h; exact ⟨by omega, h⟩
+  · intro h; exact h.2
+
+/-- the value accumulated by the digit loop is bounded, whether or not the loop stops early -/
+theorem block_blockDigits_bound (buf : Bytes) (i p : Nat) (hi : i ≤ 9) :
+    (blockDigits buf i p 0).2.2 ≤ 999999999 := by
+  rw [block_blockDigits_eq]
+  simp only
+  generalize buf.drop p = t
+  have hall : (t.take (min i (tw isDigit t))).all isDigit = true :=
+    (all_take_iff.2 (Nat.min_le_right _ _)).2
+  have hb := block_foldl_bound _ 0 hall
+  have hl : (t.take (min i (tw isDigit t))).length ≤ 9 := by
+    rw [List.length_take]; omega
+  have := Nat.pow_le_pow_right (n := 10) (by omega) hl
+  omega
+
+
+/-- a definite-length block announces at most 999 999 999 bytes -/
+theorem block_length_bounded (buf : Bytes) (pos : Nat) :
+    (lexBlock buf pos).2.1.len ≤ 999999999 := by
+  unfold lexBlock
+  simp only [mkTok]
+  split
+  · split
+    · rename_i d hd
+      split
+      · rename_i hdig
+        have hk : d.toNat - 48 ≤ 9 := block_digit_le d (by simp at hdig; exact hdig.1)
+        have hb := block_blockDigits_bound buf (d.toNat - 48) (pos+1+1) hk
+        generalize blockDigits buf (d.toNat - 48) (pos+1+1) 0 = r at hb ⊢
+        obtain ⟨p2, irem, blen⟩ := r
+        simp only at hb ⊢
+        split
+        · split
+          · simp; omega
+          · simp
+        · split <;> simp
+      · simp
+    · simp
+  · simp
+
+
+theorem block_specBlock_nohash {s : Bytes} (h : hd s (· == 35) = false) : specBlock s = .invalid := by
+  unfold specBlock
+  split
+  · simp at h
+  · rfl
+
+/-- `specBlock` in terms of `tw` -/
+theorem block_specBlock_hash (d : UInt8) (rest2 : Bytes) :
+    specBlock (35 :: d :: rest2) =
+      if (isDigit d && d != 48) = true then
+        if d.toNat - 48 ≤ tw isDigit rest2 then
+          if natOfDigits (rest2.take (d.toNat - 48)) + (d.toNat - 48) ≤ rest2.length
+          then .valid (2 + (d.toNat - 48)) (natOfDigits (rest2.take (d.toNat - 48))) else .incomplete
+        else if rest2.length ≤ tw isDigit rest2 then .incomplete else .invalid
+      else .invalid := by
+  simp only [specBlock]
+  split
+  · rename_i hdig
+    have hall := @block_take_all isDigit rest2 (d.toNat - 48)
+    have hall2 := @all_take_iff isDigit rest2 (d.toNat - 48)
+    have htw := tw_le_length isDigit rest2
+    by_cases h1 : d.toNat - 48 ≤ tw isDigit rest2
+    · have ha : (rest2.take (d.toNat - 48)).all isDigit = true := hall.2 (by omega)
+      have hl : (rest2.take (d.toNat - 48)).length = d.toNat - 48 := by rw [List.length_take]; omega
+      rw [if_pos ha, if_pos hl, if_pos h1]
+      by_cases h2 : natOfDigits (rest2.take (d.toNat - 48)) + (d.toNat - 48) ≤ rest2.length
+      · rw [if_pos h2, if_pos (by omega)]
+      · rw [if_neg h2, if_neg (by omega)]
+    · rw [if_neg h1]
+      by_cases h2 : rest2.length ≤ tw isDigit rest2
+      · have ha : (rest2.take (d.toNat - 48)).all isDigit = true := hall.2 (by omega)
+        have hl : ¬ (rest2.take (d.toNat - 48)).length = d.toNat - 48 := by rw [List.length_take]; omega
+        rw [if_pos ha, if_neg hl, if_pos h2]
+      · have ha : ¬ (rest2.take (d.toNat - 48)).all isDigit = true := fun hh => by
+          have := hall.1 hh; omega
+        rw [if_neg ha, if_neg h2]
+  · rfl
+
+
+/-- the model on `# d ...`, in the same terms as `block_specBlock_hash` -/
+theorem block_lexBlock_hash (buf : Bytes) (pos : Nat) (d : UInt8) (rest2 : Bytes)
+    (hs : buf.drop pos = 35 :: d :: rest2) :
+    lexBlock buf pos =
+      if (isDigit d && d != 48) = true then
+        if d.toNat - 48 ≤ tw isDigit rest2 then
+          if natOfDigits (rest2.take (d.toNat - 48)) + (d.toNat - 48) ≤ rest2.length
+          then (pos + (2 + (d.toNat - 48) + natOfDigits (rest2.take (d.toNat - 48))),
+                Token.mk .block (pos + (2 + (d.toNat - 48))) (natOfDigits (rest2.take (d.toNat - 48)) : Nat),
+                ((2 + (d.toNat - 48) + natOfDigits (rest2.take (d.toNat - 48)) : Nat) : Int))
+          else (buf.length, Token.mk .unknown pos 0, 0)
+        else if rest2.length ≤ tw isDigit rest2 then (buf.length, Token.mk .unknown pos 0, 0)
+        else (pos, Token.mk .unknown pos 0, 0)
+      else (pos, Token.mk .unknown pos 0, 0) := by
+  have hlen : buf.length = pos + 2 + rest2.length := by
+    have := congrArg List.length hs
+    simp at this; omega
+  have h1 : buf[pos + 1]? = some d := by
+    rw [getElem?_eq_head_drop, drop_add, hs]; rfl
+  have h2 : buf.drop (pos + 1 + 1) = rest2 := by
+    rw [Nat.add_assoc, drop_add, hs]; rfl
+  have htw := tw_le_length isDigit rest2
+  unfold lexBlock
+  rw [peekP_eq, hs]
+  simp only [hd_cons, beq_self_eq_true, if_true, h1, mkTok]
+  split
+  · by_cases hk : d.toNat - 48 ≤ tw isDigit rest2
+    · have hbd : blockDigits buf (d.toNat - 48) (pos + 1 + 1) 0 =
+          (pos + 1 + 1 + (d.toNat - 48), 0, natOfDigits (rest2.take (d.toNat - 48))) := by
+        rw [block_blockDigits_eq, h2]
+        have hm : min (d.toNat - 48) (tw isDigit rest2) = d.toNat - 48 := by omega
+        rw [hm, Nat.sub_self]; rfl
+      rw [hbd, if_pos hk]
+      simp only [beq_self_eq_true, if_true]
+      generalize natOfDigits (rest2.take (d.toNat - 48)) = n
+      by_cases hn : n + (d.toNat - 48) ≤ rest2.length
+      · rw [if_pos hn, if_pos (by omega)]
+        refine Prod.ext (by simp only; omega) (Prod.ext ?_ (by simp only; omega))
+        simp only [Token.mk.injEq, true_and, and_true]; omega
+      · rw [if_neg hn, if_neg (by omega)]
+    · have hbd : ∃ n, blockDigits buf (d.toNat - 48) (pos + 1 + 1) 0 =
+          (pos + 1 + 1 + tw isDigit rest2, d.toNat - 48 - tw isDigit rest2, n) := by
+        rw [block_blockDigits_eq, h2]
+        have hm : min (d.toNat - 48) (tw isDigit rest2) = tw isDigit rest2 := by omega
+        rw [hm]; exact ⟨_, rfl⟩
+      obtain ⟨n, hbd⟩ := hbd
+      rw [hbd, if_neg hk]
+      have h0 : ((d.toNat - 48 - tw isDigit rest2) == 0) = false := by
+        rw [beq_eq_false_iff_ne]; omega
+      simp only [h0, Bool.false_eq_true, if_false]
+      by_cases he : rest2.length ≤ tw isDigit rest2
+      · have : iseos buf (pos + 1 + 1 + tw isDigit rest2) = true := by
+          unfold iseos; rw [decide_eq_true_iff]; omega
+        rw [if_pos he, if_pos this]
+      · have : ¬ iseos buf (pos + 1 + 1 + tw isDigit rest2) = true := by
+          unfold iseos; rw [decide_eq_true_iff]; omega
+        rw [if_neg he, if_neg this]
+  · rfl
+
+
+theorem block_spec (buf : Bytes) (pos : Nat) (h : pos ≤ buf.length) :
+    Agrees .block buf pos (lexBlock buf pos) := by
+  unfold Agrees
+  have hst : ∀ s, specToken .block s =
+      match specBlock s with
+      | .valid h n => some ⟨h + n, .block, h, n⟩
+      | _ => none := fun _ => rfl
+  rw [hst]
+  cases hs : buf.drop pos with
+  | nil =>
+    have hl : lexBlock buf pos = (pos, Token.mk .unknown pos 0, 0) := by
+      unfold lexBlock; rw [peekP_eq, hs]; rfl
+    rw [hl]; simp [specBlock]
+  | cons b t =>
+    by_cases hb : b = 35
+    · subst hb
+      cases t with
+      | nil =>
+        have hl : lexBlock buf pos = (buf.length, Token.mk .unknown pos 0, 0) := by
+          have h1 : buf[pos + 1]? = none := by
+            rw [getElem?_eq_head_drop, drop_add, hs]; rfl
+          unfold lexBlock; rw [peekP_eq, hs]; simp only [h1]; rfl
+        rw [hl]; simp [specBlock]
+      | cons d rest2 =>
+        have hlen : buf.length = pos + 2 + rest2.length := by
+          have := congrArg List.length hs
+          simp at this; omega
+        rw [block_lexBlock_hash buf pos d rest2 hs, block_specBlock_hash]
+        by_cases hdig : (isDigit d && d != 48) = true
+        · rw [if_pos hdig, if_pos hdig]
+          by_cases hk : d.toNat - 48 ≤ tw isDigit rest2
+          · rw [if_pos hk, if_pos hk]
+            by_cases hn : natOfDigits (rest2.take (d.toNat - 48)) + (d.toNat - 48) ≤ rest2.length
+            · rw [if_pos hn, if_pos hn]
+              simp; omega
+            · rw [if_neg hn, if_neg hn]; simp
+          · rw [if_neg hk, if_neg hk]
+            by_cases he : rest2.length ≤ tw isDigit rest2
+            · rw [if_pos he, if_pos he]; simp
+            · rw [if_neg he, if_neg he]; simp
+        · rw [if_neg hdig, if_neg hdig]; simp
+    · have hh : hd (b :: t) (· == 35) = false := by simp [hb]
+      have hl : lexBlock buf pos = (pos, Token.mk .unknown pos 0, 0) := by
+        unfold lexBlock; rw [peekP_eq, hs, hh]; rfl
+      rw [hl, block_specBlock_nohash hh]; simp
+
+/-! ## header -/
+/-! ## program header -/
+
+section header_token
+
+local notation "headerAl" => (fun b : UInt8 => isAlnum b || b == 95)
+
+/-- greedy mnemonic length -/
+def header_mlen (t : Bytes) : Nat := if hd t isAlpha = true then 1 + tw headerAl (t.drop 1) else 0
+
+/-- `(:mnemonic)*` -/
+def header_S : Re := .star (.seq (Re.c 58) mnemonic)
+
+theorem header_al_ne_colon : ∀ b : UInt8, headerAl b = true → (b == 58) = false := by
+  intro b h; simp [isAlnum, isAlpha, isUpper, isLower, isDigit] at *; grind
+theorem header_al_ne_q : ∀ b : UInt8, headerAl b = true → (b == 63) = false := by
+  intro b h; simp [isAlnum, isAlpha, isUpper, isLower, isDigit] at *; grind
+theorem header_alpha_al : ∀ b : UInt8, isAlpha b = true → headerAl b = true := by
+  intro b h; simp [isAlnum] at *; simp [h]
+theorem header_alpha_ne_colon : ∀ b : UInt8, isAlpha b = true → (b == 58) = false := by
+  intro b h; simp [isAlpha, isUpper, isLower] at *; grind
+theorem header_alpha_ne_star : ∀ b : UInt8, isAlpha b = true → (b == 42) = false := by
+  intro b h; simp [isAlpha, isUpper, isLower] at *; grind
+theorem header_colon_ne_star : ∀ b : UInt8, (b == 58) = true → (b == 42) = false := by
+  intro b h; simp at *; simp [h]
+theorem header_colon_ne_q : ∀ b : UInt8, (b == 58) = true → (b == 63) = false := by
+  intro b h; simp at *; simp [h]
+theorem header_star_ne_colon : ∀ b : UInt8, (b == 42) = true → (b == 58) = false := by
+  intro b h; simp at *; simp [h]
+theorem header_star_ne_alpha : ∀ b : UInt8, (b == 42) = true → isAlpha b = false := by
+  intro b h; simp at h; subst h; decide
+
+theorem header_PM_mn {t : Bytes} {m : Nat} : PM mnemonic t m ↔ 1 ≤ m ∧ m ≤ header_mlen t := by
+  rw [PM_mnemonic]; unfold header_mlen
+  by_cases h : hd t isAlpha = true
+  · simp [h]
+  · simp [h]; omega
+
+theorem header_mlen_le (t : Bytes) : header_mlen t ≤ t.length := by
+  unfold header_mlen
+  split
+  · have := tw_le_length headerAl (t.drop 1)
+    have := hd_length ‹_›
+    simp at *; omega
+  · omega
+
+theorem header_mlen_pos {t : Bytes} : 0 < header_mlen t ↔ hd t isAlpha = true := by
+  by_cases h : hd t isAlpha = true
+  · simp [header_mlen, h]; omega
+  · simp [header_mlen, h]
+
+theorem header_mlen_zero {t : Bytes} : header_mlen t = 0 ↔ hd t isAlpha = false := by
+  unfold header_mlen; split <;> simp [*]
+
+/-- every byte of the greedy mnemonic is alphanumeric or `_` -/
+theorem header_mlen_al {t : Bytes} {i : Nat} (h : i < header_mlen t) : hd (t.drop i) headerAl = true := by
+  unfold header_mlen at h
+  split at h
+  · rename_i ha
+    cases i with
+    | zero => simpa using hd_imp header_alpha_al ha
+    | succ i =>
+      have := hd_drop_of_lt_tw (p := headerAl) (s := t.drop 1) (j := i) (by omega)
+      rw [List.drop_drop] at this
+      rw [Nat.add_comm]; exact this
+  · omega
+
+/-- the byte after the greedy mnemonic is not alphanumeric or `_` -/
+theorem header_mlen_end {t : Bytes} (h : 0 < header_mlen t) : hd (t.drop (header_mlen t)) headerAl = false := by
+  unfold header_mlen at h ⊢
+  split at h
+  · rename_i ha
+    rw [if_pos ha]
+    have := hd_drop_tw headerAl (t.drop 1)
+    rw [List.drop_drop] at this
+    exact this
+  · omega
+
+/-! ### the model's mnemonic skipper -/
+
+theorem header_skipMn_pos (buf : Bytes) (p : Nat) :
+    (if peekP buf p isAlpha = true then skipMany buf (p + 1) headerAl else p) = p + header_mlen (buf.drop p) := by
+  unfold header_mlen
+  lex_rel
+  split <;> omega
+
+theorem header_skipMn (buf : Bytes) (p : Nat) :
+    skipProgramMnemonic buf p =
+      (p + header_mlen (buf.drop p),
+        if (buf.drop (p + header_mlen (buf.drop p))).length = 0 then -((header_mlen (buf.drop p) : Nat) : Int)
+        else ((header_mlen (buf.drop p) : Nat) : Int)) := by
+  unfold skipProgramMnemonic
+  simp only [header_skipMn_pos, iseos_eq, decide_eq_true_eq]
+  split
+  · congr 1; omega
+  · congr 1; omega
+
+theorem header_loop_step (buf : Bytes) (fuel p : Nat) :
+    compoundLoop buf (fuel + 1) p =
+      if hd (buf.drop p) (· == 58) = true then
+        (if header_mlen (buf.drop (p + 1)) = 0 then (p + 1, -1)
+         else if (buf.drop (p + 1 + header_mlen (buf.drop (p + 1)))).length = 0 then
+           (p + 1 + header_mlen (buf.drop (p + 1)), 1)
+         else compoundLoop buf fuel (p + 1 + header_mlen (buf.drop (p + 1))))
+      else (p, 1) := by
+  rw [compoundLoop, peekP_eq, header_skipMn]
+  by_cases hc : hd (buf.drop p) (· == 58) = true
+  · simp only [hc, if_true]
+    by_cases hM : header_mlen (buf.drop (p + 1)) = 0
+    · simp [hM]
+    · simp only [hM, if_false]
+      by_cases he : (buf.drop (p + 1 + header_mlen (buf.drop (p + 1)))).length = 0
+      · simp only [he, if_true]
+        rw [if_pos (by omega)]
+      · simp only [he, if_false]
+        rw [if_neg (by omega), if_neg (by simp; omega)]
+  · simp only [hc]; simp
+
+/-! ### `(:mnemonic)*` -/
+
+theorem header_S_zero (t : Bytes) : PM header_S t 0 := PM_star.2 (.inl rfl)
+
+theorem header_S_nocolon {t : Bytes} {j : Nat} (h : hd t (· == 58) = false) (hj : PM header_S t j) : j = 0 := by
+  unfold header_S at hj
+  rw [PM_star] at hj
+  rcases hj with rfl | ⟨i, j', rfl, hi, h1, h2⟩
+  · rfl
+  · rw [PM_seq] at h1
+    obtain ⟨a, b, rfl, ha, hb⟩ := h1
+    rw [PM_c, h] at ha
+    simp at ha
+
+theorem header_S_al {t : Bytes} {j : Nat} (h : hd t headerAl = true) (hj : PM header_S t j) : j = 0 :=
+  header_S_nocolon (hd_disj header_al_ne_colon h) hj
+
+theorem header_S_dead {t : Bytes} {j : Nat} (hM : header_mlen (t.drop 1) = 0) (hj : PM header_S t j) : j = 0 := by
+  unfold header_S at hj
+  rw [PM_star] at hj
+  rcases hj with rfl | ⟨i, j', rfl, hi, h1, h2⟩
+  · rfl
+  · rw [PM_seq] at h1
+    obtain ⟨a, b, rfl, ha, hb⟩ := h1
+    rw [PM_c] at ha
+    obtain ⟨rfl, _⟩ := ha
+    rw [header_PM_mn, hM] at hb
+    omega
+
+theorem header_S_step_mem {t : Bytes} {M j' : Nat} (hc : hd t (· == 58) = true)
+    (hM : M = header_mlen (t.drop 1)) (hpos : 0 < M) (h : PM header_S (t.drop (1 + M)) j') :
+    PM header_S t (1 + M + j') := by
+  unfold header_S at h ⊢
+  exact PM_star.2 (.inr ⟨1 + M, j', rfl, by omega,
+    PM_seq.2 ⟨1, M, rfl, PM_c.2 ⟨rfl, hc⟩, header_PM_mn.2 ⟨hpos, by omega⟩⟩, h⟩)
+
+theorem header_S_step_bound {t : Bytes} {M G j : Nat} (hM : M = header_mlen (t.drop 1))
+    (hG : ∀ j', PM header_S (t.drop (1 + M)) j' → j' ≤ G) (h : PM header_S t j) : j ≤ 1 + M + G := by
+  have h0 := h
+  unfold header_S at h
+  rw [PM_star] at h
+  rcases h with rfl | ⟨i, j', rfl, hi, h1, h2⟩
+  · omega
+  · rw [PM_seq] at h1
+    obtain ⟨a, b, rfl, ha, hb⟩ := h1
+    rw [PM_c] at ha
+    obtain ⟨rfl, _⟩ := ha
+    rw [header_PM_mn] at hb
+    by_cases hbM : b = M
+    · subst hbM
+      have := hG j' h2
+      omega
+    · have hal : hd ((t.drop 1).drop b) headerAl = true := header_mlen_al (by omega)
+      rw [List.drop_drop] at hal
+      have := header_S_al hal h2
+      omega
+
+/-- the `while (skipColon)` loop follows the greedy path of `(:mnemonic)*`; it reports -1 exactly when
+the path is followed by one more (dangling) colon, which it consumes -/
+theorem header_loop (buf : Bytes) : ∀ (fuel p : Nat), (buf.drop p).length < fuel →
+    ∃ G : Nat, ∃ D : Bool,
+      compoundLoop buf fuel p = (p + G + (if D = true then 1 else 0), if D = true then -1 else 1) ∧
+      PM header_S (buf.drop p) G ∧ (∀ j, PM header_S (buf.drop p) j → j ≤ G) ∧
+      hd ((buf.drop p).drop G) (· == 58) = D := by
+  intro fuel
+  induction fuel with
+  | zero => intro p h; omega
+  | succ fuel ih =>
+    intro p hlen
+    rw [header_loop_step]
+    by_cases hc : hd (buf.drop p) (· == 58) = true
+    · rw [if_pos hc]
+      by_cases hM : header_mlen (buf.drop (p + 1)) = 0
+      · rw [if_pos hM]
+        refine ⟨0, true, by simp, header_S_zero _, ?_, by simpa using hc⟩
+        intro j hj
+        rw [drop_add] at hM
+        have := header_S_dead hM hj
+        omega
+      · rw [if_neg hM]
+        obtain ⟨M, hMdef⟩ : ∃ M, M = header_mlen (buf.drop (p + 1)) := ⟨_, rfl⟩
+        rw [← hMdef] at hM ⊢
+        have e2 : buf.drop (p + 1 + M) = (buf.drop p).drop (1 + M) := by rw [Nat.add_assoc, drop_add]
+        rw [drop_add] at hMdef
+        have hMpos : 0 < M := by omega
+        by_cases he : (buf.drop (p + 1 + M)).length = 0
+        · rw [if_pos he]
+          rw [e2] at he
+          have hnil : (buf.drop p).drop (1 + M) = [] := List.eq_nil_of_length_eq_zero he
+          refine ⟨1 + M, false, ?_, ?_, ?_, ?_⟩
+          · simp; omega
+          · exact header_S_step_mem hc hMdef hMpos (header_S_zero _)
+          · intro j hj
+            have := header_S_step_bound (G := 0) hMdef
+              (fun j' hj' => by have := PM_le hj'; rw [hnil] at this; simpa using this) hj
+            omega
+          · rw [hnil]; rfl
+        · rw [if_neg he]
+          have hl := hd_length hc
+          obtain ⟨G, D, h1, h2, h3, h4⟩ := ih (p + 1 + M) (by simp at hlen hl ⊢; omega)
+          rw [e2] at h2 h3 h4
+          refine ⟨1 + M + G, D, ?_, header_S_step_mem hc hMdef hMpos h2,
+            fun j hj => header_S_step_bound hMdef h3 hj, ?_⟩
+          · rw [h1]; congr 1; omega
+          · rw [List.drop_drop] at h4; exact h4
+    · rw [if_neg hc]
+      have hc' : hd (buf.drop p) (· == 58) = false := by simpa using hc
+      refine ⟨0, false, by simp, header_S_zero _, ?_, by simpa using hc'⟩
+      intro j hj
+      have := header_S_nocolon hc' hj
+      omega
+
+/-- a non-empty word of `(:mnemonic)*` ends with an alphanumeric byte -/
+theorem header_S_last : ∀ (j : Nat) (t : Bytes), PM header_S t j → 0 < j → hd (t.drop (j - 1)) headerAl = true := by
+  intro j
+  induction j using Nat.strongRecOn with
+  | _ j ih =>
+    intro t hj hpos
+    unfold header_S at hj
+    rw [PM_star] at hj
+    rcases hj with rfl | ⟨i, j', rfl, hi, h1, h2⟩
+    · omega
+    · rw [PM_seq] at h1
+      obtain ⟨a, b, rfl, ha, hb⟩ := h1
+      rw [PM_c] at ha
+      obtain ⟨rfl, _⟩ := ha
+      rw [header_PM_mn] at hb
+      by_cases hj' : j' = 0
+      · subst hj'
+        have hal : hd ((t.drop 1).drop (b - 1)) headerAl = true := header_mlen_al (by omega)
+        rw [List.drop_drop] at hal
+        rw [show 1 + b + 0 - 1 = 1 + (b - 1) by omega]; exact hal
+      · have := ih j' (by omega) (t.drop (1 + b)) h2 (by omega)
+        rw [List.drop_drop] at this
+        rw [show 1 + b + j' - 1 = 1 + b + (j' - 1) by omega]; exact this
+
+/-! ### the three header languages -/
+
+/-- `:? mnemonic X` -/
+theorem header_PM_prefix {X : Re} {s : Bytes} {n a : Nat} (ha : a = if hd s (· == 58) = true then 1 else 0) :
+    PM (.seq (opt (Re.c 58)) (.seq mnemonic X)) s n ↔
+      ∃ m k, n = a + m + k ∧ 1 ≤ m ∧ m ≤ header_mlen (s.drop a) ∧ PM X (s.drop (a + m)) k := by
+  rw [PM_seq]
+  constructor
+  · rintro ⟨i, j, rfl, hi, hj⟩
+    rw [PM_seq] at hj
+    obtain ⟨m, k, rfl, hm, hk⟩ := hj
+    rw [header_PM_mn] at hm
+    rw [List.drop_drop] at hk
+    rw [PM_opt, PM_c] at hi
+    rcases hi with rfl | ⟨rfl, hc⟩
+    · have hal : hd s isAlpha = true := header_mlen_pos.1 (by simp at hm; omega)
+      have := hd_disj header_alpha_ne_colon hal
+      rw [this] at ha; simp at ha; subst ha
+      exact ⟨m, k, by omega, hm.1, hm.2, hk⟩
+    · rw [hc] at ha; simp at ha; subst ha
+      exact ⟨m, k, by omega, hm.1, hm.2, hk⟩
+  · rintro ⟨m, k, rfl, h1, h2, hk⟩
+    refine ⟨a, m + k, by omega, ?_, PM_seq.2 ⟨m, k, rfl, header_PM_mn.2 ⟨h1, h2⟩, by rw [List.drop_drop]; exact hk⟩⟩
+    rw [PM_opt, PM_c]
+    by_cases hc : hd s (· == 58) = true
+    · rw [hc] at ha; simp at ha; right; exact ⟨ha, hc⟩
+    · left; simp [hc] at ha; exact ha
+
+section header_compound
+variable {s : Bytes} {a M G : Nat}
+
+/-- longest complete header, compound form -/
+theorem header_comp_compound (hstar : hd s (· == 42) = false)
+    (ha : a = if hd s (· == 58) = true then 1 else 0) (hM : M = header_mlen (s.drop a)) (hpos : 0 < M)
+    (hG1 : PM header_S (s.drop (a + M)) G) (hG2 : ∀ j, PM header_S (s.drop (a + M)) j → j ≤ G) :
+    headerComplete.longest s = some (a + M + G + if hd (s.drop (a + M + G)) (· == 63) = true then 1 else 0) := by
+  apply longest_eq_some
+  · unfold headerComplete
+    rw [PM_alt]; right
+    rw [header_PM_prefix ha]
+    refine ⟨M, G + (if hd (s.drop (a + M + G)) (· == 63) = true then 1 else 0), by omega, hpos, by omega, ?_⟩
+    refine PM_seq.2 ⟨G, _, rfl, hG1, ?_⟩
+    rw [PM_opt, PM_c, List.drop_drop]
+    by_cases hq : hd (s.drop (a + M + G)) (· == 63) = true
+    · right; simp [hq]
+    · left; simp [hq]
+  · intro n hn
+    unfold headerComplete at hn
+    rw [PM_alt] at hn
+    rcases hn with hn | hn
+    · rw [PM_seq] at hn
+      obtain ⟨i, j, _, hi, _⟩ := hn
+      rw [PM_c, hstar] at hi
+      simp at hi
+    · rw [header_PM_prefix ha] at hn
+      obtain ⟨m, k, rfl, h1, h2, hk⟩ := hn
+      rw [PM_seq] at hk
+      obtain ⟨j, e, rfl, hj, he⟩ := hk
+      rw [PM_opt, PM_c, List.drop_drop] at he
+      have he1 : e ≤ 1 := by omega
+      by_cases hmM : m = M
+      · subst hmM
+        have := hG2 j hj
+        by_cases hjG : j = G
+        · subst hjG
+          rcases he with rfl | ⟨rfl, hq⟩
+          · omega
+          · rw [if_pos hq]; omega
+        · omega
+      · have hal : hd ((s.drop a).drop m) headerAl = true := header_mlen_al (by omega)
+        rw [List.drop_drop] at hal
+        have := header_S_al hal hj
+        omega
+
+/-- every incomplete compound header is at most the greedy path plus its dangling colon -/
+theorem header_incP_bound
+    (ha : a = if hd s (· == 58) = true then 1 else 0) (hM : M = header_mlen (s.drop a)) (hpos : 0 < M)
+    (hG2 : ∀ j, PM header_S (s.drop (a + M)) j → j ≤ G) (n : Nat) (hn : PM headerIncompleteCompound s n) :
+    n ≤ a + M + G + if hd (s.drop (a + M + G)) (· == 58) = true then 1 else 0 := by
+  unfold headerIncompleteCompound at hn
+  rw [PM_alt] at hn
+  rcases hn with hn | hn
+  · rw [PM_c] at hn; omega
+  · rw [header_PM_prefix ha] at hn
+    obtain ⟨m, k, rfl, h1, h2, hk⟩ := hn
+    rw [PM_seq] at hk
+    obtain ⟨j, e, rfl, hj, he⟩ := hk
+    rw [PM_c, List.drop_drop] at he
+    obtain ⟨rfl, hc⟩ := he
+    by_cases hmM : m = M
+    · subst hmM
+      have := hG2 j hj
+      by_cases hjG : j = G
+      · subst hjG
+        rw [if_pos hc]; omega
+      · omega
+    · have hal : hd ((s.drop a).drop m) headerAl = true := header_mlen_al (by omega)
+      rw [List.drop_drop] at hal
+      have := header_S_al hal hj
+      omega
+
+theorem header_incP_mem
+    (ha : a = if hd s (· == 58) = true then 1 else 0) (hM : M = header_mlen (s.drop a)) (hpos : 0 < M)
+    (hG1 : PM header_S (s.drop (a + M)) G) (hc : hd (s.drop (a + M + G)) (· == 58) = true) :
+    PM headerIncompleteCompound s (a + M + G + 1) := by
+  unfold headerIncompleteCompound
+  rw [PM_alt]; right
+  rw [header_PM_prefix ha]
+  refine ⟨M, G + 1, by omega, hpos, by omega, PM_seq.2 ⟨G, 1, rfl, hG1, ?_⟩⟩
+  rw [PM_c, List.drop_drop]
+  exact ⟨rfl, hc⟩
+
+/-- no mnemonic after the optional colon: no complete header -/
+theorem header_comp_none (hstar : hd s (· == 42) = false)
+    (ha : a = if hd s (· == 58) = true then 1 else 0) (hM : header_mlen (s.drop a) = 0) (n : Nat) :
+    ¬ PM headerComplete s n := by
+  intro hn
+  unfold headerComplete at hn
+  rw [PM_alt] at hn
+  rcases hn with hn | hn
+  · rw [PM_seq] at hn
+    obtain ⟨i, j, _, hi, _⟩ := hn
+    rw [PM_c, hstar] at hi
+    simp at hi
+  · rw [header_PM_prefix ha] at hn
+    obtain ⟨m, k, rfl, h1, h2, hk⟩ := hn
+    omega
+
+theorem header_incP_M0 (ha : a = if hd s (· == 58) = true then 1 else 0) (hM : header_mlen (s.drop a) = 0)
+    (n : Nat) : PM headerIncompleteCompound s n ↔ n = 1 ∧ hd s (· == 58) = true := by
+  unfold headerIncompleteCompound
+  rw [PM_alt, PM_c, header_PM_prefix ha]
+  constructor
+  · rintro (h | ⟨m, k, rfl, h1, h2, hk⟩)
+    · exact h
+    · omega
+  · intro h; exact .inl h
+
+theorem header_incC_iff (n : Nat) : PM headerIncompleteCommon s n ↔ n = 1 ∧ hd s (· == 42) = true := by
+  unfold headerIncompleteCommon; rw [PM_c]
+
+end header_compound
+
+section header_common
+variable {s : Bytes} {M : Nat}
+
+theorem header_star_nocompound (hstar : hd s (· == 42) = true) {X : Re} (n : Nat) :
+    ¬ PM (.seq (opt (Re.c 58)) (.seq mnemonic X)) s n := by
+  have ha : 0 = if hd s (· == 58) = true then 1 else 0 := by
+    rw [hd_disj header_star_ne_colon hstar]; simp
+  rw [header_PM_prefix ha]
+  rintro ⟨m, k, _, h1, h2, _⟩
+  have : header_mlen (s.drop 0) = 0 := header_mlen_zero.2 (by simpa using hd_disj header_star_ne_alpha hstar)
+  omega
+
+theorem header_comp_common (hstar : hd s (· == 42) = true) (hM : M = header_mlen (s.drop 1)) (hpos : 0 < M) :
+    headerComplete.longest s = some (1 + M + if hd (s.drop (1 + M)) (· == 63) = true then 1 else 0) := by
+  apply longest_eq_some
+  · unfold headerComplete
+    rw [PM_alt]; left
+    refine PM_seq.2 ⟨1, M + (if hd (s.drop (1 + M)) (· == 63) = true then 1 else 0), by omega, PM_c.2 ⟨rfl, hstar⟩,
+      PM_seq.2 ⟨M, (if hd (s.drop (1 + M)) (· == 63) = true then 1 else 0), rfl, header_PM_mn.2 ⟨hpos, by omega⟩, ?_⟩⟩
+    rw [PM_opt, PM_c, List.drop_drop]
+    by_cases hq : hd (s.drop (1 + M)) (· == 63) = true
+    · right; simp [hq]
+    · left; simp [hq]
+  · intro n hn
+    unfold headerComplete at hn
+    rw [PM_alt] at hn
+    rcases hn with hn | hn
+    · rw [PM_seq] at hn
+      obtain ⟨i, j, rfl, hi, hj⟩ := hn
+      rw [PM_c] at hi
+      obtain ⟨rfl, _⟩ := hi
+      rw [PM_seq] at hj
+      obtain ⟨m, e, rfl, hm, he⟩ := hj
+      rw [header_PM_mn] at hm
+      rw [PM_opt, PM_c, List.drop_drop] at he
+      by_cases hmM : m = M
+      · subst hmM
+        rcases he with rfl | ⟨rfl, hq⟩
+        · omega
+        · rw [if_pos hq]; omega
+      · omega
+    · exact absurd hn (header_star_nocompound hstar n)
+
+theorem header_comp_common_none (hstar : hd s (· == 42) = true) (hM : header_mlen (s.drop 1) = 0) (n : Nat) :
+    ¬ PM headerComplete s n := by
+  intro hn
+  unfold headerComplete at hn
+  rw [PM_alt] at hn
+  rcases hn with hn | hn
+  · rw [PM_seq] at hn
+    obtain ⟨i, j, rfl, hi, hj⟩ := hn
+    rw [PM_c] at hi
+    obtain ⟨rfl, _⟩ := hi
+    rw [PM_seq] at hj
+    obtain ⟨m, e, rfl, hm, he⟩ := hj
+    rw [header_PM_mn] at hm
+    omega
+  · exact absurd hn (header_star_nocompound hstar n)
+
+theorem header_incP_common_none (hstar : hd s (· == 42) = true) (n : Nat) :
+    ¬ PM headerIncompleteCompound s n := by
+  intro hn
+  unfold headerIncompleteCompound at hn
+  rw [PM_alt] at hn
+  rcases hn with hn | hn
+  · rw [PM_c, hd_disj header_star_ne_colon hstar] at hn
+    simp at hn
+  · exact absurd hn (header_star_nocompound hstar n)
+
+end header_common
+
+/-! ### the selection among the three languages -/
+
+def header_sel (s : Bytes) (comp incC incP : Option Nat) : Option Expect :=
+  let best := [comp, incC, incP].filterMap id |>.foldl max 0
+  if best = 0 then none
+  else if comp == some best then
+    let isCommon := s.head? == some 42
+    let isQuery := s[best - 1]? == some 63
+    some ⟨best, if isCommon then (if isQuery then .commonQueryHeader else .commonHeader)
+                else (if isQuery then .compoundQueryHeader else .compoundHeader), 0, best⟩
+  else if incC == some best then some ⟨best, .incompleteCommonHeader, 0, best⟩
+  else some ⟨best, .incompleteCompoundHeader, 0, best⟩
+
+theorem header_spec_sel (s : Bytes) :
+    specToken .header s = header_sel s (headerComplete.longest s) (headerIncompleteCommon.longest s)
+      (headerIncompleteCompound.longest s) := rfl
+
+theorem header_head_star (s : Bytes) : (s.head? == some 42) = hd s (· == 42) := by
+  cases s <;> simp
+
+theorem header_get_q (s : Bytes) (i : Nat) : (s[i]? == some 63) = hd (s.drop i) (· == 63) := by
+  rw [getElem?_eq_head_drop]
+  cases s.drop i <;> simp
+
+theorem header_sel_comp {s : Bytes} {n : Nat} {comp incC incP : Option Nat} (hn : 0 < n) (h1 : comp = some n)
+    (h2 : ∀ k, incC = some k → k ≤ n) (h3 : ∀ k, incP = some k → k ≤ n) :
+    header_sel s comp incC incP =
+      some ⟨n, if hd s (· == 42) = true then
+                 (if hd (s.drop (n - 1)) (· == 63) = true then .commonQueryHeader else .commonHeader)
+               else (if hd (s.drop (n - 1)) (· == 63) = true then .compoundQueryHeader else .compoundHeader), 0, n⟩ := by
+  subst h1
+  have hb : ([some n, incC, incP].filterMap id).foldl max 0 = n := by
+    rcases incC with _ | k1 <;> rcases incP with _ | k2 <;> simp at h2 h3 ⊢ <;> omega
+  unfold header_sel
+  simp only [hb, header_head_star, header_get_q]
+  rw [if_neg (by omega)]
+  simp
+
+theorem header_sel_incC {s : Bytes} {n : Nat} {comp incC incP : Option Nat} (hn : 0 < n)
+    (h1 : ∀ k, comp = some k → k < n) (h2 : incC = some n) (h3 : ∀ k, incP = some k → k ≤ n) :
+    header_sel s comp incC incP = some ⟨n, .incompleteCommonHeader, 0, n⟩ := by
+  subst h2
+  have hb : ([comp, some n, incP].filterMap id).foldl max 0 = n := by
+    rcases comp with _ | k1 <;> rcases incP with _ | k2 <;> simp at h1 h3 ⊢ <;> omega
+  have hc : (comp == some n) = false := by
+    rcases comp with _ | k
+    · simp
+    · have := h1 k rfl
+      simp; omega
+  unfold header_sel
+  simp only [hb, hc]
+  rw [if_neg (by omega)]
+  simp
+
+theorem header_sel_incP {s : Bytes} {n : Nat} {comp incC incP : Option Nat} (hn : 0 < n)
+    (h1 : ∀ k, comp = some k → k < n) (h2 : ∀ k, incC = some k → k < n) (h3 : incP = some n) :
+    header_sel s comp incC incP = some ⟨n, .incompleteCompoundHeader, 0, n⟩ := by
+  subst h3
+  have hb : ([comp, incC, some n].filterMap id).foldl max 0 = n := by
+    rcases comp with _ | k1 <;> rcases incC with _ | k2 <;> simp at h1 h2 ⊢ <;> omega
+  have hc : (comp == some n) = false := by
+    rcases comp with _ | k
+    · simp
+    · have := h1 k rfl
+      simp; omega
+  have hc2 : (incC == some n) = false := by
+    rcases incC with _ | k
+    · simp
+    · have := h2 k rfl
+      simp; omega
+  unfold header_sel
+  simp only [hb, hc, hc2]
+  rw [if_neg (by omega)]
+  simp
+
+theorem header_sel_none {s : Bytes} : header_sel s none none none = none := by
+  simp [header_sel]
+
+theorem header_le_of_bound {r : Re} {s : Bytes} {n : Nat} (h : ∀ m, PM r s m → m ≤ n) :
+    ∀ k, r.longest s = some k → k ≤ n := fun k hk => h k (longest_some_PM hk).1
+
+theorem header_lt_of_bound {r : Re} {s : Bytes} {n : Nat} (h : ∀ m, PM r s m → m < n) :
+    ∀ k, r.longest s = some k → k < n := fun k hk => h k (longest_some_PM hk).1
+
+/-! ### the specification, case by case -/
+
+theorem header_spec_common {s : Bytes} {M : Nat} (hstar : hd s (· == 42) = true)
+    (hM : M = header_mlen (s.drop 1)) (hpos : 0 < M) :
+    specToken .header s = some ⟨1 + M + (if hd (s.drop (1 + M)) (· == 63) = true then 1 else 0),
+      if hd (s.drop (1 + M)) (· == 63) = true then .commonQueryHeader else .commonHeader, 0,
+      1 + M + (if hd (s.drop (1 + M)) (· == 63) = true then 1 else 0)⟩ := by
+  rw [header_spec_sel, header_sel_comp (n := 1 + M + (if hd (s.drop (1 + M)) (· == 63) = true then 1 else 0))
+    (by omega) (header_comp_common hstar hM hpos)
+    (header_le_of_bound (fun m hm => by rw [header_incC_iff] at hm; omega))
+    (header_le_of_bound (fun m hm => absurd hm (header_incP_common_none hstar m)))]
+  rw [if_pos hstar]
+  by_cases hq : hd (s.drop (1 + M)) (· == 63) = true
+  · simp only [hq, if_true]
+    rw [show 1 + M + 1 - 1 = 1 + M by omega, hq]; rfl
+  · have hq' : hd (s.drop (1 + M)) (· == 63) = false := by simpa using hq
+    simp only [hq', Bool.false_eq_true, if_false, Nat.add_zero]
+    have hal : hd ((s.drop 1).drop (M - 1)) headerAl = true := header_mlen_al (by omega)
+    rw [List.drop_drop] at hal
+    rw [show 1 + M - 1 = 1 + (M - 1) by omega, hd_disj header_al_ne_q hal]; rfl
+
+theorem header_spec_incC {s : Bytes} (hstar : hd s (· == 42) = true) (hM : header_mlen (s.drop 1) = 0) :
+    specToken .header s = some ⟨1, .incompleteCommonHeader, 0, 1⟩ := by
+  rw [header_spec_sel]
+  apply header_sel_incC (by omega)
+  · exact header_lt_of_bound (fun m hm => absurd hm (header_comp_common_none hstar hM m))
+  · exact longest_eq_some ((header_incC_iff 1).2 ⟨rfl, hstar⟩) (fun m hm => by rw [header_incC_iff] at hm; omega)
+  · exact header_le_of_bound (fun m hm => absurd hm (header_incP_common_none hstar m))
+
+theorem header_incC_none {s : Bytes} (hstar : hd s (· == 42) = false) (m : Nat) :
+    ¬ PM headerIncompleteCommon s m := by
+  rw [header_incC_iff, hstar]; simp
+
+theorem header_spec_colon {s : Bytes} (hstar : hd s (· == 42) = false) (hc : hd s (· == 58) = true)
+    (hM : header_mlen (s.drop 1) = 0) :
+    specToken .header s = some ⟨1, .incompleteCompoundHeader, 0, 1⟩ := by
+  have ha : 1 = if hd s (· == 58) = true then 1 else 0 := by rw [if_pos hc]
+  rw [header_spec_sel]
+  apply header_sel_incP (by omega)
+  · exact header_lt_of_bound (fun m hm => absurd hm (header_comp_none hstar ha hM m))
+  · exact header_lt_of_bound (fun m hm => absurd hm (header_incC_none hstar m))
+  · exact longest_eq_some ((header_incP_M0 ha hM 1).2 ⟨rfl, hc⟩)
+      (fun m hm => by rw [header_incP_M0 ha hM] at hm; omega)
+
+theorem header_spec_nothing {s : Bytes} (hstar : hd s (· == 42) = false) (hc : hd s (· == 58) = false)
+    (hM : header_mlen s = 0) : specToken .header s = none := by
+  have ha : 0 = if hd s (· == 58) = true then 1 else 0 := by rw [hc]; simp
+  have hM' : header_mlen (s.drop 0) = 0 := by simpa using hM
+  rw [header_spec_sel, longest_eq_none (header_comp_none hstar ha hM'),
+    longest_eq_none (header_incC_none hstar),
+    longest_eq_none (fun m hm => by rw [header_incP_M0 ha hM', hc] at hm; simp at hm)]
+  exact header_sel_none
+
+section header_compound2
+variable {s : Bytes} {a M G : Nat}
+
+theorem header_lastbyte (hM : M = header_mlen (s.drop a)) (hpos : 0 < M)
+    (hG1 : PM header_S (s.drop (a + M)) G) : hd (s.drop (a + M + G - 1)) headerAl = true := by
+  by_cases hG : G = 0
+  · subst hG
+    have hal : hd ((s.drop a).drop (M - 1)) headerAl = true := header_mlen_al (by omega)
+    rw [List.drop_drop] at hal
+    rw [show a + M + 0 - 1 = a + (M - 1) by omega]; exact hal
+  · have := header_S_last G _ hG1 (by omega)
+    rw [List.drop_drop] at this
+    rw [show a + M + G - 1 = a + M + (G - 1) by omega]; exact this
+
+theorem header_spec_compound (hstar : hd s (· == 42) = false)
+    (ha : a = if hd s (· == 58) = true then 1 else 0) (hM : M = header_mlen (s.drop a)) (hpos : 0 < M)
+    (hG1 : PM header_S (s.drop (a + M)) G) (hG2 : ∀ j, PM header_S (s.drop (a + M)) j → j ≤ G)
+    (hD : hd (s.drop (a + M + G)) (· == 58) = false) :
+    specToken .header s = some ⟨a + M + G + (if hd (s.drop (a + M + G)) (· == 63) = true then 1 else 0),
+      if hd (s.drop (a + M + G)) (· == 63) = true then .compoundQueryHeader else .compoundHeader, 0,
+      a + M + G + (if hd (s.drop (a + M + G)) (· == 63) = true then 1 else 0)⟩ := by
+  rw [header_spec_sel, header_sel_comp
+    (n := a + M + G + (if hd (s.drop (a + M + G)) (· == 63) = true then 1 else 0))
+    (by omega) (header_comp_compound hstar ha hM hpos hG1 hG2)
+    (header_le_of_bound (fun m hm => absurd hm (header_incC_none hstar m)))
+    (header_le_of_bound (fun m hm => by
+      have := header_incP_bound ha hM hpos hG2 m hm
+      rw [hD] at this; simp at this; omega))]
+  simp only [hstar, Bool.false_eq_true, if_false]
+  by_cases hq : hd (s.drop (a + M + G)) (· == 63) = true
+  · simp only [hq, if_true]
+    rw [show a + M + G + 1 - 1 = a + M + G by omega]
+    simp only [hq, if_true]
+  · have hq' : hd (s.drop (a + M + G)) (· == 63) = false := by simpa using hq
+    simp only [hq', Bool.false_eq_true, if_false, Nat.add_zero]
+    simp only [hd_disj header_al_ne_q (header_lastbyte hM hpos hG1), Bool.false_eq_true, if_false]
+
+theorem header_spec_dangling (hstar : hd s (· == 42) = false)
+    (ha : a = if hd s (· == 58) = true then 1 else 0) (hM : M = header_mlen (s.drop a)) (hpos : 0 < M)
+    (hG1 : PM header_S (s.drop (a + M)) G) (hG2 : ∀ j, PM header_S (s.drop (a + M)) j → j ≤ G)
+    (hD : hd (s.drop (a + M + G)) (· == 58) = true) :
+    specToken .header s = some ⟨a + M + G + 1, .incompleteCompoundHeader, 0, a + M + G + 1⟩ := by
+  rw [header_spec_sel]
+  apply header_sel_incP (by omega)
+  · have hq : hd (s.drop (a + M + G)) (· == 63) = false := hd_disj header_colon_ne_q hD
+    have := header_comp_compound hstar ha hM hpos hG1 hG2
+    rw [hq] at this
+    intro k hk
+    rw [this] at hk
+    simp at hk; omega
+  · exact header_lt_of_bound (fun m hm => absurd hm (header_incC_none hstar m))
+  · exact longest_eq_some (header_incP_mem ha hM hpos hG1 hD) (fun m hm => by
+      have := header_incP_bound ha hM hpos hG2 m hm
+      rw [hD] at this; simpa using this)
+
+end header_compound2
+
+/-! ### the model -/
+
+theorem header_skipCommon (buf : Bytes) (pos : Nat) :
+    skipCommonProgramHeader buf pos =
+      if hd (buf.drop pos) (· == 42) = true then
+        (pos + 1 + header_mlen (buf.drop (pos + 1)), if 0 < header_mlen (buf.drop (pos + 1)) then 1 else -1)
+      else (pos, 0) := by
+  unfold skipCommonProgramHeader
+  rw [peekP_eq, header_skipMn]
+  by_cases hs : hd (buf.drop pos) (· == 42) = true
+  · simp only [hs, if_true]
+    by_cases hM : header_mlen (buf.drop (pos + 1)) = 0
+    · simp [hM]
+    · by_cases he : (buf.drop (pos + 1 + header_mlen (buf.drop (pos + 1)))).length = 0
+      · simp only [he, if_true]
+        rw [if_neg (by simp; omega), if_pos (by omega), if_pos (by omega)]
+      · simp only [he, if_false]
+        rw [if_neg (by simp; omega), if_neg (by omega), if_pos (by omega), if_pos (by omega)]
+  · simp only [hs]; simp
+
+theorem header_skipCompound_M0 (buf : Bytes) (pos : Nat) {a : Nat}
+    (ha : a = if hd (buf.drop pos) (· == 58) = true then 1 else 0)
+    (hM : header_mlen (buf.drop (pos + a)) = 0) :
+    skipCompoundProgramHeader buf pos = (pos + a, if a = 1 then -1 else 0) := by
+  have h01 : a = 0 ∨ a = 1 := by split at ha <;> omega
+  unfold skipCompoundProgramHeader
+  simp only [skipChr_eq, ← ha, header_skipMn, hM]
+  rcases h01 with h | h <;> simp [h]
+
+theorem header_skipCompound_pos (buf : Bytes) (pos : Nat) {a M : Nat}
+    (ha : a = if hd (buf.drop pos) (· == 58) = true then 1 else 0)
+    (hM : M = header_mlen (buf.drop (pos + a))) (hpos : 0 < M) :
+    ∃ G : Nat, ∃ D : Bool,
+      skipCompoundProgramHeader buf pos =
+        (pos + a + M + G + (if D = true then 1 else 0), if D = true then -1 else 1) ∧
+      PM header_S (buf.drop (pos + a + M)) G ∧ (∀ j, PM header_S (buf.drop (pos + a + M)) j → j ≤ G) ∧
+      hd ((buf.drop (pos + a + M)).drop G) (· == 58) = D := by
+  have hsk : skipCompoundProgramHeader buf pos =
+      if (buf.drop (pos + a + M)).length = 0 then (pos + a + M, 1)
+      else compoundLoop buf (buf.length - (pos + a + M) + 1) (pos + a + M) := by
+    unfold skipCompoundProgramHeader
+    simp only [skipChr_eq, ← ha, header_skipMn, ← hM]
+    by_cases he : (buf.drop (pos + a + M)).length = 0
+    · simp only [he, if_true]
+      rw [if_neg (by omega), if_pos (by omega)]
+    · simp only [he, if_false]
+      rw [if_pos (by omega)]
+  rw [hsk]
+  by_cases he : (buf.drop (pos + a + M)).length = 0
+  · rw [if_pos he]
+    have hnil : buf.drop (pos + a + M) = [] := List.eq_nil_of_length_eq_zero he
+    refine ⟨0, false, by simp, header_S_zero _, ?_, by rw [hnil]; rfl⟩
+    intro j hj
+    have := PM_le hj
+    omega
+  -- loop
+  · rw [if_neg he]
+    exact header_loop buf _ _ (by simp)
+
+/-! ### assembling -/
+
+theorem header_sel_le {s : Bytes} {comp incC incP : Option Nat} {L : Nat} {e : Expect}
+    (h1 : ∀ k, comp = some k → k ≤ L) (h2 : ∀ k, incC = some k → k ≤ L) (h3 : ∀ k, incP = some k → k ≤ L)
+    (h : header_sel s comp incC incP = some e) : e.consumed ≤ L := by
+  have hb : ([comp, incC, incP].filterMap id).foldl max 0 ≤ L := by
+    rcases comp with _ | k1 <;> rcases incC with _ | k2 <;> rcases incP with _ | k3 <;>
+      simp at h1 h2 h3 ⊢ <;> omega
+  unfold header_sel at h
+  simp only at h
+  split at h
+  · cases h
+  · split at h
+    · cases h; exact hb
+    · split at h
+      · cases h; exact hb
+      · cases h; exact hb
+
+theorem header_consumed_le {s : Bytes} {e : Expect} (h : specToken .header s = some e) :
+    e.consumed ≤ s.length := by
+  rw [header_spec_sel] at h
+  exact header_sel_le (header_le_of_bound fun m hm => PM_le hm) (header_le_of_bound fun m hm => PM_le hm)
+    (header_le_of_bound fun m hm => PM_le hm) h
+
+theorem header_agrees_some {buf : Bytes} {pos n : Nat} {ty : TokType} {r : Nat × Token × Int}
+    (h : pos ≤ buf.length) (hs : specToken .header (buf.drop pos) = some ⟨n, ty, 0, n⟩)
+    (hr : r = (pos + n, Token.mk ty pos (n : Int), (n : Int))) : Agrees .header buf pos r := by
+  have := header_consumed_le hs
+  simp at this
+  unfold Agrees
+  rw [hs]; subst hr
+  simp; omega
+
+theorem header_agrees_none {buf : Bytes} {pos : Nat} {r : Nat × Token × Int}
+    (hs : specToken .header (buf.drop pos) = none)
+    (hr : r = (pos, Token.mk .unknown pos 0, (0 : Int))) : Agrees .header buf pos r := by
+  unfold Agrees
+  rw [hs]; subst hr
+  simp
+
+theorem header_lex_common (buf : Bytes) (pos : Nat) {M : Nat} (hstar : hd (buf.drop pos) (· == 42) = true)
+    (hM : M = header_mlen ((buf.drop pos).drop 1)) (hpos : 0 < M) :
+    lexProgramHeader buf pos =
+      (pos + (1 + M + (if hd ((buf.drop pos).drop (1 + M)) (· == 63) = true then 1 else 0)),
+       Token.mk (if hd ((buf.drop pos).drop (1 + M)) (· == 63) = true then .commonQueryHeader else .commonHeader) pos
+         ((1 + M + (if hd ((buf.drop pos).drop (1 + M)) (· == 63) = true then 1 else 0) : Nat) : Int),
+       ((1 + M + (if hd ((buf.drop pos).drop (1 + M)) (· == 63) = true then 1 else 0) : Nat) : Int)) := by
+  rw [← drop_add] at hM
+  have e2 : (buf.drop pos).drop (1 + M) = buf.drop (pos + 1 + M) := by rw [Nat.add_assoc, drop_add buf pos]
+  rw [e2]
+  unfold lexProgramHeader
+  simp only [header_skipCommon, hstar, if_true, ← hM, hpos, skipChr_eq, mkTok]
+  by_cases hq : hd (buf.drop (pos + 1 + M)) (· == 63) = true
+  · simp [hq]
+    omega
+  · simp [hq]
+    omega
+
+theorem header_lex_incC (buf : Bytes) (pos : Nat) (hstar : hd (buf.drop pos) (· == 42) = true)
+    (hM : header_mlen ((buf.drop pos).drop 1) = 0) :
+    lexProgramHeader buf pos = (pos + 1, Token.mk .incompleteCommonHeader pos ((1 : Nat) : Int), ((1 : Nat) : Int)) := by
+  rw [← drop_add] at hM
+  unfold lexProgramHeader
+  simp only [header_skipCommon, hstar, if_true, hM, mkTok]
+  simp
+  omega
+
+theorem header_lex_cmp_ok (buf : Bytes) (pos : Nat) {n0 : Nat} (hstar : hd (buf.drop pos) (· == 42) = false)
+    (hsk : skipCompoundProgramHeader buf pos = (pos + n0, 1)) :
+    lexProgramHeader buf pos =
+      (pos + (n0 + (if hd ((buf.drop pos).drop n0) (· == 63) = true then 1 else 0)),
+       Token.mk (if hd ((buf.drop pos).drop n0) (· == 63) = true then .compoundQueryHeader else .compoundHeader) pos
+         ((n0 + (if hd ((buf.drop pos).drop n0) (· == 63) = true then 1 else 0) : Nat) : Int),
+       ((n0 + (if hd ((buf.drop pos).drop n0) (· == 63) = true then 1 else 0) : Nat) : Int)) := by
+  rw [← drop_add]
+  unfold lexProgramHeader
+  simp only [header_skipCommon, hstar, Bool.false_eq_true, if_false]
+  simp only [hsk, skipChr_eq, mkTok]
+  by_cases hq : hd (buf.drop (pos + n0)) (· == 63) = true
+  · simp [hq]
+    omega
+  · simp [hq]
+    omega
+
+theorem header_lex_cmp_inc (buf : Bytes) (pos : Nat) {n : Nat} (hstar : hd (buf.drop pos) (· == 42) = false)
+    (hsk : skipCompoundProgramHeader buf pos = (pos + n, -1)) :
+    lexProgramHeader buf pos = (pos + n, Token.mk .incompleteCompoundHeader pos (n : Int), (n : Int)) := by
+  unfold lexProgramHeader
+  simp only [header_skipCommon, hstar, Bool.false_eq_true, if_false]
+  simp only [hsk, mkTok]
+  simp
+  omega
+
+theorem header_lex_cmp_none (buf : Bytes) (pos : Nat) (hstar : hd (buf.drop pos) (· == 42) = false)
+    (hsk : skipCompoundProgramHeader buf pos = (pos, 0)) :
+    lexProgramHeader buf pos = (pos, Token.mk .unknown pos 0, (0 : Int)) := by
+  unfold lexProgramHeader
+  simp only [header_skipCommon, hstar, Bool.false_eq_true, if_false]
+  simp only [hsk, mkTok]
+  simp
+
+theorem programHeader_spec (buf : Bytes) (pos : Nat) (h : pos ≤ buf.length) :
+    Agrees .header buf pos (lexProgramHeader buf pos) := by
+  by_cases hstar : hd (buf.drop pos) (· == 42) = true
+  · by_cases hM : header_mlen ((buf.drop pos).drop 1) = 0
+    · exact header_agrees_some h (header_spec_incC hstar hM) (header_lex_incC buf pos hstar hM)
+    · exact header_agrees_some h (header_spec_common hstar rfl (by omega))
+        (header_lex_common buf pos hstar rfl (by omega))
+  · have hstar' : hd (buf.drop pos) (· == 42) = false := by simpa using hstar
+    obtain ⟨a, ha⟩ : ∃ a, a = if hd (buf.drop pos) (· == 58) = true then 1 else 0 := ⟨_, rfl⟩
+    by_cases hM : header_mlen ((buf.drop pos).drop a) = 0
+    · have hsk := header_skipCompound_M0 buf pos ha (by rw [drop_add]; exact hM)
+      by_cases hc : hd (buf.drop pos) (· == 58) = true
+      · have ha1 : a = 1 := by rw [ha, if_pos hc]
+        rw [ha1] at hM hsk
+        exact header_agrees_some h (header_spec_colon hstar' hc hM)
+          (header_lex_cmp_inc buf pos hstar' (by simpa using hsk))
+      · have hc' : hd (buf.drop pos) (· == 58) = false := by simpa using hc
+        have ha0 : a = 0 := by rw [ha, if_neg hc]
+        rw [ha0] at hM hsk
+        exact header_agrees_none (header_spec_nothing hstar' hc' (by simpa using hM))
+          (header_lex_cmp_none buf pos hstar' (by simpa using hsk))
+    · obtain ⟨M, hMdef⟩ : ∃ M, M = header_mlen ((buf.drop pos).drop a) := ⟨_, rfl⟩
+      have hpos : 0 < M := by omega
+      obtain ⟨G, D, hsk, hG1, hG2, hD⟩ := header_skipCompound_pos buf pos ha (M := M)
+        (by rw [drop_add]; exact hMdef) hpos
+      have e2 : buf.drop (pos + a + M) = (buf.drop pos).drop (a + M) := by
+        rw [Nat.add_assoc, drop_add buf pos]
+      rw [e2] at hG1 hG2 hD
+      rw [List.drop_drop] at hD
+      cases D with
+      | false =>
+        have hsk' : skipCompoundProgramHeader buf pos = (pos + (a + M + G), 1) := by
+          rw [hsk]; simp; omega
+        exact header_agrees_some h (header_spec_compound hstar' ha hMdef hpos hG1 hG2 hD)
+          (header_lex_cmp_ok buf pos hstar' hsk')
+      | true =>
+        have hsk' : skipCompoundProgramHeader buf pos = (pos + (a + M + G + 1), -1) := by
+          rw [hsk]; simp; omega
+        exact header_agrees_some h (header_spec_dangling hstar' ha hMdef hpos hG1 hG2 hD)
+          (header_lex_cmp_inc buf pos hstar' hsk')
+
+end header_token
+
+/-! ## pdata -/
+/-! ## consequences of `Agrees` -/
+
+theorem pdata_agrees_some {k : Kind} {buf : Bytes} {pos : Nat} {r : Nat × Token × Int} {e : Expect}
+    (h : Agrees k buf pos r) (he : specToken k (buf.drop pos) = some e) :
+    r.1 = pos + e.consumed ∧ r.2.2 = e.consumed ∧ r.2.1 = ⟨e.type, pos + e.payloadOff, e.payloadLen⟩ ∧
+      pos + e.consumed ≤ buf.length := by
+  unfold Agrees at h
+  rw [he] at h
+  exact h
+
+theorem pdata_agrees_none {k : Kind} {buf : Bytes} {pos : Nat} {r : Nat × Token × Int}
+    (h : Agrees k buf pos r) (he : specToken k (buf.drop pos) = none) :
+    r.2.2 = 0 ∧ r.2.1.type = .unknown ∧ r.2.1.len = 0 ∧
+      r.1 = (if k = .block ∧ specBlock (buf.drop pos) = .incomplete then buf.length else pos) := by
+  unfold Agrees at h
+  rw [he] at h
+  exact h
+
+/-! ## white space -/
+
+theorem pdata_wsLen_eq_tw (s : Bytes) : wsLen s = tw isWs s := by
+  have hk : specToken .ws s = plainSpec wsRe .ws s := rfl
+  unfold wsLen
+  rw [hk]
+  by_cases hn : 0 < tw isWs s
+  · have : plainSpec wsRe .ws s = some ⟨tw isWs s, .ws, 0, tw isWs s⟩ :=
+      plainSpec_some hn (PM_plus_chr.2 ⟨hn, Nat.le_refl _⟩) (fun m hm => (PM_plus_chr.1 hm).2)
+    rw [this]; rfl
+  · have : plainSpec wsRe .ws s = none :=
+      plainSpec_none (fun m hm hP => by have := (PM_plus_chr.1 hP).2; omega)
+    rw [this]
+    simp; omega
+
+theorem pdata_wsLen_drop_wsLen (s : Bytes) : wsLen (s.drop (wsLen s)) = 0 := by
+  rw [pdata_wsLen_eq_tw, pdata_wsLen_eq_tw]
+  exact tw_eq_zero_iff.2 (hd_drop_tw _ _)
+
+theorem pdata_wsLen_nil : wsLen [] = 0 := by
+  rw [pdata_wsLen_eq_tw]; rfl
+
+theorem pdata_ws (buf : Bytes) (pos : Nat) (h : pos ≤ buf.length) :
+    (lexWhiteSpace buf pos).1 = pos + wsLen (buf.drop pos) ∧
+    (lexWhiteSpace buf pos).2.2 = (wsLen (buf.drop pos) : Int) ∧
+    pos + wsLen (buf.drop pos) ≤ buf.length := by
+  rw [pdata_wsLen_eq_tw]
+  unfold lexWhiteSpace
+  lex_rel
+  have := tw_le_length isWs (buf.drop pos)
+  simp at this
+  refine ⟨trivial, by omega, by omega⟩
+
+/-! ## successful tokens are not empty -/
+
+theorem pdata_plain_some {re : Re} {ty : TokType} {s : Bytes} {e : Expect} (h : plainSpec re ty s = some e) :
+    0 < e.consumed ∧ e = ⟨e.consumed, ty, 0, e.consumed⟩ := by
+  unfold plainSpec at h
+  split at h
+  · split at h
+    · cases h; simp; assumption
+    · cases h
+  · cases h
+
+theorem pdata_chr_some {s : Bytes} {e : Expect} (h : specToken .chr s = some e) :
+    0 < e.consumed ∧ e = ⟨e.consumed, .programMnemonic, 0, e.consumed⟩ :=
+  pdata_plain_some (re := mnemonic) h
+
+theorem pdata_decimal_some {s : Bytes} {e : Expect} (h : specToken .decimal s = some e) :
+    0 < e.consumed ∧ e = ⟨e.consumed, .decimal, 0, e.consumed⟩ :=
+  pdata_plain_some (re := decimal) h
+
+theorem pdata_suffix_some {s : Bytes} {e : Expect} (h : specToken .suffix s = some e) :
+    0 < e.consumed ∧ e = ⟨e.consumed, .suffix, 0, e.consumed⟩ :=
+  pdata_plain_some (re := suffix) h
+
+theorem pdata_expression_some {s : Bytes} {e : Expect} (h : specToken .expression s = some e) :
+    0 < e.consumed ∧ e = ⟨e.consumed, .expression, 0, e.consumed⟩ :=
+  pdata_plain_some (re := expression) h
+
+theorem pdata_orElse_some {α : Type} {a : Option α} {f : _root_.Unit → Option α} {e : α}
+    (h : a.orElse f = some e) : a = some e ∨ f () = some e := by
+  cases a with
+  | none => exact .inr h
+  | some x => exact .inl h
+
+theorem pdata_pick_pos {X : Re} {ty : TokType} {s : Bytes} {e : Expect}
+    (h : (match (Re.seq (Re.c 35) X).longest s with
+      | some n => some (Expect.mk n ty 2 (n - 2))
+      | none => none) = some e) : 0 < e.consumed := by
+  split at h
+  · rename_i n hn
+    cases h
+    have := (longest_some_PM hn).1
+    rw [PM_seq] at this
+    obtain ⟨i, j, rfl, h1, _⟩ := this
+    rw [PM_c] at h1
+    simp; omega
+  · cases h
+
+theorem pdata_nondecimal_some {s : Bytes} {e : Expect} (h : specToken .nondecimal s = some e) :
+    0 < e.consumed := by
+  simp only [specToken] at h
+  rcases pdata_orElse_some h with h | h
+  · exact pdata_pick_pos h
+  · rcases pdata_orElse_some h with h | h
+    · exact pdata_pick_pos h
+    · exact pdata_pick_pos h
+
+theorem pdata_longestString_pos {q : UInt8} {s : Bytes} {n : Nat} (h : longestString q s = some n) : 0 < n := by
+  unfold longestString at h
+  have hm := List.mem_of_getLast? h
+  simp only [List.mem_filter, Bool.and_eq_true] at hm
+  have hacc := (accepts_iff_matches _ _).1 hm.2.1
+  unfold quoted at hacc
+  rw [matches_seq] at hacc
+  obtain ⟨u, t, hut, hu, _⟩ := hacc
+  obtain ⟨b, rfl, _⟩ := matches_chr.1 hu
+  cases n with
+  | zero => simp at hut
+  | succ n => omega
+
+theorem pdata_string_some {s : Bytes} {e : Expect} (h : specToken .string s = some e) :
+    0 < e.consumed := by
+  simp only [specToken] at h
+  split at h
+  · rename_i n hn; cases h; exact pdata_longestString_pos hn
+  · split at h
+    · rename_i n hn; cases h; exact pdata_longestString_pos hn
+    · cases h
+
+theorem pdata_block_valid {s : Bytes} {hl n : Nat} (h : specBlock s = .valid hl n) : 2 ≤ hl := by
+  unfold specBlock at h
+  split at h
+  · split at h
+    · cases h
+    · split at h
+      · simp only [] at h
+        split at h
+        · split at h
+          · split at h
+            · cases h; omega
+            · cases h
+          · cases h
+        · cases h
+      · cases h
+  · cases h
+
+/-! ## the cascade of `parseProgramData`, stage by stage -/
+
+def pdata_core6 (buf : Bytes) (q : Nat) : Nat × Token × Int := lexExpression buf q
+def pdata_core5 (buf : Bytes) (q : Nat) : Nat × Token × Int :=
+  let r := lexBlock buf q
+  if r.2.2 != 0 then r else pdata_core6 buf r.1
+def pdata_core4 (buf : Bytes) (q : Nat) : Nat × Token × Int :=
+  let r := lexString buf q
+  if r.2.2 != 0 then r else pdata_core5 buf r.1
+def pdata_dec (buf : Bytes) (r3 : Nat × Token × Int) : Nat × Token × Int :=
+  let a := lexWhiteSpace buf r3.1
+  let b := lexSuffix buf a.1
+  if b.2.2 > 0 then
+    (b.1, { r3.2.1 with len := r3.2.1.len + a.2.2 + b.2.2, type := .decimalWithSuffix }, r3.2.1.len + a.2.2 + b.2.2)
+  else (b.1, r3.2.1, r3.2.2 + a.2.2)
+def pdata_core3 (buf : Bytes) (q : Nat) : Nat × Token × Int :=
+  let r := lexDecimal buf q
+  if r.2.2 != 0 then pdata_dec buf r else pdata_core4 buf r.1
+def pdata_core2 (buf : Bytes) (q : Nat) : Nat × Token × Int :=
+  let r := lexCharacterProgramData buf q
+  if r.2.2 != 0 then r else pdata_core3 buf r.1
+def pdata_core1 (buf : Bytes) (q : Nat) : Nat × Token × Int :=
+  let r := lexNondecimal buf q
+  if r.2.2 != 0 then r else pdata_core2 buf r.1
+
+theorem pdata_parse_eq (buf : Bytes) (pos : Nat) :
+    parseProgramData buf pos =
+      ((lexWhiteSpace buf (pdata_core1 buf (lexWhiteSpace buf pos).1).1).1,
+       (pdata_core1 buf (lexWhiteSpace buf pos).1).2.1,
+       (pdata_core1 buf (lexWhiteSpace buf pos).1).2.2 +
+         ((lexWhiteSpace buf pos).2.2 + (lexWhiteSpace buf (pdata_core1 buf (lexWhiteSpace buf pos).1).1).2.2)) := rfl
+
+def pdata_tok (k : Kind) (s : Bytes) (d : DataSpec) : DataSpec :=
+  match specToken k s with
+  | some e => .item e.consumed e.type e.payloadOff e.payloadLen
+  | none => d
+
+def pdata_sd5 (s : Bytes) : DataSpec :=
+  match specBlock s with
+  | .valid h n => .item (h + n) .block h n
+  | .incomplete => .swallow
+  | .invalid => pdata_tok .expression s .none
+
+def pdata_sd3 (s : Bytes) : DataSpec :=
+  match specToken .decimal s with
+  | some e =>
+    let w := wsLen (s.drop e.consumed)
+    match specToken .suffix (s.drop (e.consumed + w)) with
+    | some sf => .item (e.consumed + w + sf.consumed) .decimalWithSuffix 0 (e.consumed + w + sf.consumed)
+    | none => .item e.consumed .decimal 0 e.consumed
+  | none => pdata_tok .string s (pdata_sd5 s)
+
+theorem pdata_specData_eq (s : Bytes) :
+    specData s = pdata_tok .nondecimal s (pdata_tok .chr s (pdata_sd3 s)) := by
+  unfold specData pdata_tok pdata_sd3 pdata_tok pdata_sd5 pdata_tok
+  simp only []
+  cases specToken .nondecimal s <;> cases specToken .chr s <;> cases specToken .decimal s <;>
+    cases specToken .string s <;> cases specBlock s <;> cases specToken .expression s <;> rfl
+
+/-- what the cascade started at `q` (after the leading white space) returns -/
+def pdata_Rel (buf : Bytes) (q : Nat) (d : DataSpec) (c : Nat × Token × Int) : Prop :=
+  match d with
+  | .item n t po pl => ∃ w : Nat, c.1 = q + n + w ∧ c.2.2 = (n : Int) + w ∧ c.2.1 = ⟨t, q + po, pl⟩ ∧
+      w + wsLen (buf.drop (q + n + w)) = wsLen (buf.drop (q + n)) ∧ q + n + w ≤ buf.length
+  | .swallow => c.2.1.type = .unknown ∧ c.1 = buf.length
+  | .none => c.2.1.type = .unknown ∧ c.2.1.len = 0 ∧ c.1 = q ∧ c.2.2 = 0
+
+/-- one ordinary stage: try a recogniser, otherwise go on at the same place -/
+theorem pdata_step {k : Kind} {buf : Bytes} {q : Nat} {r : Nat × Token × Int} (hk : k ≠ .block)
+    (hA : Agrees k buf q r) (hpos : ∀ e, specToken k (buf.drop q) = some e → 0 < e.consumed)
+    {d : DataSpec} {next : Nat → Nat × Token × Int} (hrel : pdata_Rel buf q d (next q)) :
+    pdata_Rel buf q (pdata_tok k (buf.drop q) d) (if r.2.2 != 0 then r else next r.1) := by
+  unfold pdata_tok
+  cases he : specToken k (buf.drop q) with
+  | some e =>
+    obtain ⟨h1, h2, h3, h4⟩ := pdata_agrees_some hA he
+    have := hpos e he
+    have hne : (r.2.2 != 0) = true := by simp [h2]; omega
+    rw [if_pos hne]
+    exact ⟨0, by omega, by omega, h3, by simp, by omega⟩
+  | none =>
+    obtain ⟨h1, h2, h3, h4⟩ := pdata_agrees_none hA he
+    have hne : ¬ (r.2.2 != 0) = true := by simp [h1]
+    rw [if_neg hne, h4, if_neg (fun h => hk h.1)]
+    exact hrel
+
+theorem pdata_core6_spec (buf : Bytes) (q : Nat) (h : q ≤ buf.length) :
+    pdata_Rel buf q (pdata_tok .expression (buf.drop q) .none) (pdata_core6 buf q) := by
+  have hA := expression_spec buf q h
+  unfold pdata_tok pdata_core6
+  cases he : specToken .expression (buf.drop q) with
+  | some e =>
+    obtain ⟨h1, h2, h3, h4⟩ := pdata_agrees_some hA he
+    exact ⟨0, by omega, by omega, h3, by simp, by omega⟩
+  | none =>
+    obtain ⟨h1, h2, h3, h4⟩ := pdata_agrees_none hA he
+    rw [if_neg (fun h => by cases h.1)] at h4
+    exact ⟨h2, h3, h4, h1⟩
+
+theorem pdata_expression_nil : specToken .expression [] = none := by decide
+
+theorem pdata_core6_end (buf : Bytes) :
+    (pdata_core6 buf buf.length).2.1.type = .unknown ∧ (pdata_core6 buf buf.length).1 = buf.length := by
+  have hA := expression_spec buf buf.length (Nat.le_refl _)
+  have he : specToken .expression (buf.drop buf.length) = none := by
+    rw [List.drop_length]; exact pdata_expression_nil
+  obtain ⟨h1, h2, h3, h4⟩ := pdata_agrees_none hA he
+  rw [if_neg (fun h => by cases h.1)] at h4
+  exact ⟨h2, h4⟩
+
+theorem pdata_core5_spec (buf : Bytes) (q : Nat) (h : q ≤ buf.length) :
+    pdata_Rel buf q (pdata_sd5 (buf.drop q)) (pdata_core5 buf q) := by
+  have hA := block_spec buf q h
+  unfold pdata_sd5 pdata_core5
+  cases hb : specBlock (buf.drop q) with
+  | valid hl n =>
+    have he : specToken .block (buf.drop q) = some ⟨hl + n, .block, hl, n⟩ := by
+      simp only [specToken, hb]
+    obtain ⟨h1, h2, h3, h4⟩ := pdata_agrees_some hA he
+    have := pdata_block_valid hb
+    simp only [] at h1 h2 h3 h4
+    have hne : ((lexBlock buf q).2.2 != 0) = true := by simp [h2]; omega
+    simp only [hne, if_true]
+    exact ⟨0, by omega, by omega, h3, by simp, by omega⟩
+  | incomplete =>
+    have he : specToken .block (buf.drop q) = none := by
+      simp only [specToken, hb]
+    obtain ⟨h1, h2, h3, h4⟩ := pdata_agrees_none hA he
+    rw [if_pos ⟨rfl, hb⟩] at h4
+    have hne : ¬ ((lexBlock buf q).2.2 != 0) = true := by simp [h1]
+    simp only [hne, h4]
+    exact pdata_core6_end buf
+  | invalid =>
+    have he : specToken .block (buf.drop q) = none := by
+      simp only [specToken, hb]
+    obtain ⟨h1, h2, h3, h4⟩ := pdata_agrees_none hA he
+    rw [if_neg (fun h => by rw [hb] at h; cases h.2)] at h4
+    have hne : ¬ ((lexBlock buf q).2.2 != 0) = true := by simp [h1]
+    simp only [hne, h4]
+    exact pdata_core6_spec buf q h
+
+theorem pdata_core4_spec (buf : Bytes) (q : Nat) (h : q ≤ buf.length) :
+    pdata_Rel buf q (pdata_tok .string (buf.drop q) (pdata_sd5 (buf.drop q))) (pdata_core4 buf q) :=
+  pdata_step (k := .string) (by decide) (string_spec buf q h) (fun _ he => pdata_string_some he)
+    (next := pdata_core5 buf) (pdata_core5_spec buf q h)
+
+theorem pdata_dec_spec (buf : Bytes) (q n : Nat) (r3 : Nat × Token × Int)
+    (h1 : r3.1 = q + n) (h2 : r3.2.2 = n) (h3 : r3.2.1 = ⟨.decimal, q, n⟩) (h4 : q + n ≤ buf.length) :
+    pdata_Rel buf q
+      (match specToken .suffix ((buf.drop q).drop (n + wsLen ((buf.drop q).drop n))) with
+        | some sf => .item (n + wsLen ((buf.drop q).drop n) + sf.consumed) .decimalWithSuffix 0
+            (n + wsLen ((buf.drop q).drop n) + sf.consumed)
+        | none => .item n .decimal 0 n)
+      (pdata_dec buf r3) := by
+  have e1 : (buf.drop q).drop n = buf.drop (q + n) := by rw [List.drop_drop]
+  rw [e1]
+  generalize hw : wsLen (buf.drop (q + n)) = w
+  have e2 : (buf.drop q).drop (n + w) = buf.drop (q + n + w) := by rw [List.drop_drop, Nat.add_assoc]
+  rw [e2]
+  obtain ⟨a1, a2, a3⟩ := pdata_ws buf (q + n) h4
+  rw [hw] at a1 a2 a3
+  have hA := suffix_spec buf (q + n + w) a3
+  unfold pdata_dec
+  simp only [h1, a1, a2, h2, h3]
+  cases he : specToken .suffix (buf.drop (q + n + w)) with
+  | some sf =>
+    obtain ⟨b1, b2, b3, b4⟩ := pdata_agrees_some hA he
+    have := (pdata_suffix_some he).1
+    have hgt : (sf.consumed : Int) > 0 := by omega
+    simp only [b1, b2, hgt, if_true]
+    refine ⟨0, by omega, by push_cast; omega, ?_, by simp, by omega⟩
+    simp only [Nat.add_zero]
+    push_cast
+    rfl
+  | none =>
+    obtain ⟨b1, b2, b3, b4⟩ := pdata_agrees_none hA he
+    rw [if_neg (fun h => by cases h.1)] at b4
+    have hgt : ¬ (0 : Int) > 0 := by omega
+    simp only [b1, b4, hgt, if_false]
+    refine ⟨w, rfl, rfl, rfl, ?_, a3⟩
+    have := pdata_wsLen_drop_wsLen (buf.drop (q + n))
+    rw [hw, List.drop_drop] at this
+    omega
+
+theorem pdata_core3_spec (buf : Bytes) (q : Nat) (h : q ≤ buf.length) :
+    pdata_Rel buf q (pdata_sd3 (buf.drop q)) (pdata_core3 buf q) := by
+  have hA := decimal_spec buf q h
+  unfold pdata_sd3 pdata_core3
+  cases he : specToken .decimal (buf.drop q) with
+  | some e =>
+    obtain ⟨h1, h2, h3, h4⟩ := pdata_agrees_some hA he
+    obtain ⟨hpos, hee⟩ := pdata_decimal_some he
+    rw [hee] at h3
+    have hne : ((lexDecimal buf q).2.2 != 0) = true := by simp [h2]; omega
+    simp only [hne, if_true]
+    exact pdata_dec_spec buf q e.consumed _ h1 h2 h3 h4
+  | none =>
+    obtain ⟨h1, h2, h3, h4⟩ := pdata_agrees_none hA he
+    rw [if_neg (fun h => by cases h.1)] at h4
+    have hne : ¬ ((lexDecimal buf q).2.2 != 0) = true := by simp [h1]
+    simp only [hne, h4]
+    exact pdata_core4_spec buf q h
+
+theorem pdata_core2_spec (buf : Bytes) (q : Nat) (h : q ≤ buf.length) :
+    pdata_Rel buf q (pdata_tok .chr (buf.drop q) (pdata_sd3 (buf.drop q))) (pdata_core2 buf q) :=
+  pdata_step (k := .chr) (by decide) (characterData_spec buf q h) (fun _ he => (pdata_chr_some he).1)
+    (next := pdata_core3 buf) (pdata_core3_spec buf q h)
+
+theorem pdata_core1_spec (buf : Bytes) (q : Nat) (h : q ≤ buf.length) :
+    pdata_Rel buf q (specData (buf.drop q)) (pdata_core1 buf q) := by
+  rw [pdata_specData_eq]
+  exact pdata_step (k := .nondecimal) (by decide) (nondecimal_spec buf q h) (fun _ he => pdata_nondecimal_some he)
+    (next := pdata_core2 buf) (pdata_core2_spec buf q h)
+
+theorem pdata_main (buf : Bytes) (pos : Nat) (h : pos ≤ buf.length)
+    (r : Nat × Token × Int) (hr : r = parseProgramData buf pos) (s : Bytes) (hs : s = buf.drop pos)
+    (w0 : Nat) (hw : w0 = wsLen s) :
+    match specData (s.drop w0) with
+    | .item n t po pl =>
+      let w1 := wsLen (s.drop (w0 + n))
+      r.1 = pos + w0 + n + w1 ∧ r.2.2 = w0 + n + w1 ∧ r.2.1 = ⟨t, pos + w0 + po, pl⟩ ∧ pos + w0 + n + w1 ≤ buf.length
+    | .swallow => r.2.1.type = .unknown ∧ r.1 = buf.length
+    | .none => r.2.1.type = .unknown ∧ r.2.1.len = 0 ∧ r.1 = pos + w0 ∧ r.2.2 = w0 := by
+  subst hs
+  obtain ⟨a1, a2, a3⟩ := pdata_ws buf pos h
+  rw [← hw] at a1 a2 a3
+  have hz := pdata_wsLen_drop_wsLen (buf.drop pos)
+  rw [← hw, List.drop_drop] at hz
+  have hc := pdata_core1_spec buf (pos + w0) a3
+  rw [pdata_parse_eq] at hr
+  simp only [a1, a2] at hr
+  have e0 : (buf.drop pos).drop w0 = buf.drop (pos + w0) := by rw [List.drop_drop]
+  rw [e0]
+  generalize pdata_core1 buf (pos + w0) = c at hc hr
+  generalize specData (buf.drop (pos + w0)) = d at hc
+  subst hr
+  cases d with
+  | item n t po pl =>
+    obtain ⟨w, c1, c2, c3, c4, c5⟩ := hc
+    have e1 : (buf.drop pos).drop (w0 + n) = buf.drop (pos + w0 + n) := by rw [List.drop_drop, Nat.add_assoc]
+    simp only [e1, c1, c2, c3]
+    obtain ⟨b1, b2, b3⟩ := pdata_ws buf (pos + w0 + n + w) c5
+    rw [b1, b2]
+    refine ⟨by omega, by omega, trivial, by omega⟩
+  | swallow =>
+    obtain ⟨c1, c2⟩ := hc
+    obtain ⟨b1, b2, b3⟩ := pdata_ws buf buf.length (Nat.le_refl _)
+    simp only [c1, c2, b1]
+    refine ⟨trivial, by omega⟩
+  | none =>
+    obtain ⟨c1, c2, c3, c4⟩ := hc
+    obtain ⟨b1, b2, b3⟩ := pdata_ws buf (pos + w0) a3
+    simp only [c1, c2, c3, c4, b1, b2, hz]
+    refine ⟨trivial, trivial, by omega, by omega⟩
+
+theorem programData_spec (buf : Bytes) (pos : Nat) (h : pos ≤ buf.length) :
+    let r := parseProgramData buf pos
+    let s := buf.drop pos
+    let w0 := wsLen s
+    match specData (s.drop w0) with
+    | .item n t po pl =>
+      let w1 := wsLen (s.drop (w0 + n))
+      r.1 = pos + w0 + n + w1 ∧ r.2.2 = w0 + n + w1 ∧ r.2.1 = ⟨t, pos + w0 + po, pl⟩ ∧ pos + w0 + n + w1 ≤ buf.length
+    | .swallow => r.2.1.type = .unknown ∧ r.1 = buf.length
+    | .none => r.2.1.type = .unknown ∧ r.2.1.len = 0 ∧ r.1 = pos + w0 ∧ r.2.2 = w0 := by
+  intro r s w0
+  exact pdata_main buf pos h r rfl s rfl w0 rfl
+
+/-! ## unit -/
+/-! ## consequences of `Agrees` -/
+
+theorem unit_agrees_some {k : Kind} {buf : Bytes} {pos : Nat} {r : Nat × Token × Int} {e : Expect}
+    (h : Agrees k buf pos r) (he : specToken k (buf.drop pos) = some e) :
+    r.1 = pos + e.consumed ∧ r.2.2 = e.consumed ∧ r.2.1 = ⟨e.type, pos + e.payloadOff, e.payloadLen⟩ ∧
+      pos + e.consumed ≤ buf.length := by
+  unfold Agrees at h
+  rw [he] at h
+  exact h
+
+theorem unit_agrees_none {k : Kind} {buf : Bytes} {pos : Nat} {r : Nat × Token × Int}
+    (h : Agrees k buf pos r) (he : specToken k (buf.drop pos) = none) :
+    r.2.2 = 0 ∧ r.2.1.type = .unknown ∧ r.2.1.len = 0 ∧
+      r.1 = (if k = .block ∧ specBlock (buf.drop pos) = .incomplete then buf.length else pos) := by
+  unfold Agrees at h
+  rw [he] at h
+  exact h
+
+/-! ## white space -/
+
+theorem unit_wsLen_eq_tw (s : Bytes) : wsLen s = tw isWs s := by
+  have hk : specToken .ws s = plainSpec wsRe .ws s := rfl
+  unfold wsLen
+  rw [hk]
+  by_cases hn : 0 < tw isWs s
+  · have : plainSpec wsRe .ws s = some ⟨tw isWs s, .ws, 0, tw isWs s⟩ :=
+      plainSpec_some hn (PM_plus_chr.2 ⟨hn, Nat.le_refl _⟩) (fun m hm => (PM_plus_chr.1 hm).2)
+    rw [this]; rfl
+  · have : plainSpec wsRe .ws s = none :=
+      plainSpec_none (fun m hm hP => by have := (PM_plus_chr.1 hP).2; omega)
+    rw [this]
+    simp; omega
+
+theorem unit_wsLen_nil : wsLen [] = 0 := by
+  rw [unit_wsLen_eq_tw]; rfl
+
+theorem unit_wsLen_le (s : Bytes) : wsLen s ≤ s.length := by
+  rw [unit_wsLen_eq_tw]; exact tw_le_length _ _
+
+theorem unit_ws_bound (buf : Bytes) (pos : Nat) (h : pos ≤ buf.length) :
+    pos + wsLen (buf.drop pos) ≤ buf.length := by
+  have := unit_wsLen_le (buf.drop pos)
+  simp at this; omega
+
+/-- the white space recogniser computes `wsLen` -/
+theorem unit_ws (buf : Bytes) (pos : Nat) :
+    lexWhiteSpace buf pos =
+      (pos + wsLen (buf.drop pos),
+       Token.mk (if wsLen (buf.drop pos) > 0 then .ws else .unknown) pos (wsLen (buf.drop pos)),
+       (wsLen (buf.drop pos) : Int)) := by
+  rw [unit_wsLen_eq_tw]
+  unfold lexWhiteSpace
+  lex_rel
+  exact plain_result_eq rfl
+
+/-! ## comma, semicolon -/
+
+theorem unit_oneChar (buf : Bytes) (pos : Nat) (ch : UInt8) (ty : TokType) :
+    lexOneChar buf pos ch ty =
+      if (buf.drop pos).head? = some ch then (pos + 1, Token.mk ty pos 1, 1) else (pos, Token.mk .unknown pos 0, 0) := by
+  unfold lexOneChar
+  rw [peekP_eq]
+  by_cases hh : hd (buf.drop pos) (· == ch) = true
+  · rw [if_pos hh, if_pos (hd_eq_iff_head?.1 hh)]; rfl
+  · rw [if_neg hh, if_neg (fun h => hh (hd_eq_iff_head?.2 h))]; rfl
+
+theorem unit_head_lt {buf : Bytes} {pos : Nat} {ch : UInt8} (h : (buf.drop pos).head? = some ch) :
+    pos + 1 ≤ buf.length := by
+  have := hd_drop_length (hd_eq_iff_head?.2 h)
+  omega
+
+
+/-! ## facts about the token specification -/
+
+theorem unit_header_some {s : Bytes} {e : Expect} (h : specToken .header s = some e) :
+    0 < e.consumed ∧ e.payloadOff = 0 ∧ e.payloadLen = e.consumed ∧ e.type ≠ .invalid ∧ e.type ≠ .unknown := by
+  simp only [specToken] at h
+  generalize List.foldl max 0 _ = best at h
+  split at h
+  · cases h
+  · rename_i hb
+    split at h
+    · cases h
+      refine ⟨by simp; omega, rfl, rfl, ?_, ?_⟩ <;> simp only <;> split <;> split <;> simp
+    · split at h <;> cases h <;> exact ⟨by simp; omega, rfl, rfl, by simp, by simp⟩
+
+theorem unit_plain_some {re : Re} {ty : TokType} {s : Bytes} {e : Expect} (h : plainSpec re ty s = some e) :
+    0 < e.consumed ∧ e.type = ty := by
+  unfold plainSpec at h
+  split at h
+  · split at h
+    · cases h; simp; assumption
+    · cases h
+  · cases h
+
+theorem unit_nondecimal_some {s : Bytes} {e : Expect} (h : specToken .nondecimal s = some e) :
+    e.type ≠ .unknown := by
+  simp only [specToken] at h
+  cases hx : hexnum.longest s <;> cases ho : octnum.longest s <;> cases hb : binnum.longest s <;>
+    simp [hx, ho, hb, Option.orElse] at h <;> subst h <;> simp
+
+theorem unit_string_some {s : Bytes} {e : Expect} (h : specToken .string s = some e) :
+    e.type ≠ .unknown := by
+  simp only [specToken] at h
+  cases hx : longestString 34 s <;> cases ho : longestString 39 s <;>
+    simp [hx, ho] at h <;> subst h <;> simp
+
+theorem unit_specData_item {s : Bytes} {n : Nat} {t : TokType} {po pl : Nat}
+    (h : specData s = .item n t po pl) : t ≠ .unknown := by
+  unfold specData at h
+  simp only [] at h
+  cases h1 : specToken .nondecimal s with
+  | some e =>
+    simp only [h1] at h
+    cases h; exact unit_nondecimal_some h1
+  | none =>
+    simp only [h1] at h
+    cases h2 : specToken .chr s with
+    | some e =>
+      simp only [h2] at h
+      cases h
+      rw [(unit_plain_some (re := mnemonic) h2).2]; simp
+    | none =>
+      simp only [h2] at h
+      cases h3 : specToken .decimal s with
+      | some e =>
+        simp only [h3] at h
+        split at h <;> cases h <;> simp
+      | none =>
+        simp only [h3] at h
+        cases h4 : specToken .string s with
+        | some e =>
+          simp only [h4] at h
+          cases h; exact unit_string_some h4
+        | none =>
+          simp only [h4] at h
+          cases h5 : specBlock s with
+          | valid a b => simp only [h5] at h; cases h; simp
+          | incomplete => simp only [h5] at h; cases h
+          | invalid =>
+            simp only [h5] at h
+            cases h6 : specToken .expression s with
+            | some e =>
+              simp only [h6] at h
+              cases h
+              rw [(unit_plain_some (re := expression) h6).2]; simp
+            | none => simp only [h6] at h; cases h
+
+theorem unit_specData_swallow {s : Bytes} (h : specData s = .swallow) :
+    specToken .nondecimal s = none ∧ specToken .chr s = none ∧ specToken .decimal s = none ∧
+    specToken .string s = none ∧ specBlock s = .incomplete := by
+  unfold specData at h
+  simp only [] at h
+  cases h1 : specToken .nondecimal s with
+  | some e => simp only [h1] at h; cases h
+  | none =>
+    simp only [h1] at h
+    cases h2 : specToken .chr s with
+    | some e => simp only [h2] at h; cases h
+    | none =>
+      simp only [h2] at h
+      cases h3 : specToken .decimal s with
+      | some e =>
+        simp only [h3] at h
+        split at h <;> cases h
+      | none =>
+        simp only [h3] at h
+        cases h4 : specToken .string s with
+        | some e => simp only [h4] at h; cases h
+        | none =>
+          simp only [h4] at h
+          cases h5 : specBlock s with
+          | valid a b => simp only [h5] at h; cases h
+          | incomplete => exact ⟨rfl, rfl, rfl, rfl, rfl⟩
+          | invalid =>
+            simp only [h5] at h
+            cases h6 : specToken .expression s with
+            | some e => simp only [h6] at h; cases h
+            | none => simp only [h6] at h; cases h
+
+
+
+theorem unit_agrees_none' {k : Kind} {buf : Bytes} {pos : Nat} {r : Nat × Token × Int}
+    (h : Agrees k buf pos r) (he : specToken k (buf.drop pos) = none) (hk : k ≠ .block) :
+    r.2.2 = 0 ∧ r.1 = pos ∧ r.2.1.type = .unknown := by
+  have := unit_agrees_none h he
+  simp only [hk, false_and, if_false] at this
+  exact ⟨this.1, this.2.2.2, this.2.1⟩
+
+theorem unit_specBlock_incomplete_length {s : Bytes} (h : specBlock s = .incomplete) : 1 ≤ s.length := by
+  cases s with
+  | nil => simp [specBlock] at h
+  | cons b s => simp
+
+/-- the swallow case of `parseProgramData` (a definite-length block that has not arrived completely):
+the cursor is at the end, nothing is reported, and the return value counts the leading blanks only -/
+theorem programData_swallow (buf : Bytes) (pos : Nat) (h : pos ≤ buf.length)
+    (hs : specData (buf.drop (pos + wsLen (buf.drop pos))) = .swallow) :
+    (parseProgramData buf pos).1 = buf.length ∧ (parseProgramData buf pos).2.1.type = .unknown ∧
+    (parseProgramData buf pos).2.2 = wsLen (buf.drop pos) ∧ pos + wsLen (buf.drop pos) + 1 ≤ buf.length := by
+  have hp0 := unit_ws_bound buf pos h
+  generalize hw : wsLen (buf.drop pos) = w0 at hs hp0
+  obtain ⟨e1, e2, e3, e4, e5⟩ := unit_specData_swallow hs
+  obtain ⟨a1, b1, _⟩ := unit_agrees_none' (nondecimal_spec buf (pos + w0) hp0) e1 (by decide)
+  obtain ⟨a2, b2, _⟩ := unit_agrees_none' (characterData_spec buf (pos + w0) hp0) e2 (by decide)
+  obtain ⟨a3, b3, _⟩ := unit_agrees_none' (decimal_spec buf (pos + w0) hp0) e3 (by decide)
+  obtain ⟨a4, b4, _⟩ := unit_agrees_none' (string_spec buf (pos + w0) hp0) e4 (by decide)
+  have e5' : specToken .block (buf.drop (pos + w0)) = none := by
+    simp only [specToken, e5]
+  obtain ⟨a5, _, _, b5⟩ := unit_agrees_none (block_spec buf (pos + w0) hp0) e5'
+  simp only [e5, and_self, if_true] at b5
+  have e6 : specToken .expression (buf.drop buf.length) = none := by
+    rw [List.drop_length]; rfl
+  obtain ⟨a6, b6, c6⟩ := unit_agrees_none' (expression_spec buf buf.length (Nat.le_refl _)) e6 (by decide)
+  have hlen := unit_specBlock_incomplete_length e5
+  simp only [List.length_drop] at hlen
+  have hwe : wsLen (buf.drop buf.length) = 0 := by rw [List.drop_length]; exact unit_wsLen_nil
+  unfold parseProgramData
+  rw [unit_ws, hw]
+  simp only [a1, b1, a2, b2, a3, b3, a4, b4, a5, b5, a6, b6, c6, unit_ws, hwe, bne_self_eq_false, Bool.false_eq_true, if_false]
+  refine ⟨by omega, trivial, by omega, by omega⟩
+
+
+/-! ## the data list -/
+
+theorem unit_pd_item {buf : Bytes} {pos : Nat} (h : pos ≤ buf.length) {n : Nat} {t : TokType} {po pl : Nat}
+    (hs : specData (buf.drop (pos + wsLen (buf.drop pos))) = .item n t po pl) :
+    (parseProgramData buf pos).1 = pos + wsLen (buf.drop pos) + n + wsLen (buf.drop (pos + wsLen (buf.drop pos) + n)) ∧
+    (parseProgramData buf pos).2.2 = ((wsLen (buf.drop pos) + n + wsLen (buf.drop (pos + wsLen (buf.drop pos) + n)) : Nat) : Int) ∧
+    (parseProgramData buf pos).2.1.type = t ∧
+    pos + wsLen (buf.drop pos) + n + wsLen (buf.drop (pos + wsLen (buf.drop pos) + n)) ≤ buf.length := by
+  have := programData_spec buf pos h
+  simp only [List.drop_drop] at this
+  rw [hs] at this
+  simp only [← Nat.add_assoc] at this
+  obtain ⟨h1, h2, h3, h4⟩ := this
+  refine ⟨h1, ?_, by rw [h3], h4⟩
+  rw [h2]; simp
+
+theorem unit_pd_none {buf : Bytes} {pos : Nat} (h : pos ≤ buf.length)
+    (hs : specData (buf.drop (pos + wsLen (buf.drop pos))) = .none) :
+    (parseProgramData buf pos).1 = pos + wsLen (buf.drop pos) ∧
+    (parseProgramData buf pos).2.2 = (wsLen (buf.drop pos) : Int) ∧
+    (parseProgramData buf pos).2.1.type = .unknown := by
+  have := programData_spec buf pos h
+  simp only [List.drop_drop] at this
+  rw [hs] at this
+  exact ⟨this.2.2.1, this.2.2.2, this.1⟩
+
+
+
+theorem unit_loop_step (buf : Bytes) (fuel pos : Nat) (tlen result cnt : Int) :
+    allDataLoop buf (fuel+1) pos tlen result cnt =
+      if (parseProgramData buf pos).2.1.type ≠ .unknown then
+        if (buf.drop (parseProgramData buf pos).1).head? = some 44 then
+          allDataLoop buf fuel ((parseProgramData buf pos).1 + 1) (tlen + result + (parseProgramData buf pos).2.2) 1 (cnt + 1)
+        else ⟨(parseProgramData buf pos).1, mkTok .allProgramData 0 (tlen + result + (parseProgramData buf pos).2.2), cnt + 1⟩
+      else ⟨(parseProgramData buf pos).1, mkTok .unknown 0 0,
+            if cnt = 0 ∧ ((parseProgramData buf pos).1 : Int) = pos + (parseProgramData buf pos).2.2 then 0 else -1⟩ := by
+  rw [allDataLoop]
+  generalize parseProgramData buf pos = x
+  obtain ⟨p1, tmp, r⟩ := x
+  simp only [lexComma, unit_oneChar]
+  by_cases ht : tmp.type = .unknown
+  · simp [ht]
+  · by_cases hc : (buf.drop p1).head? = some 44
+    · simp only [hc, if_true]; simp [ht]
+    · simp only [hc, if_false]; simp [ht]
+
+def unit_listRes : ListSpec → Nat × Int
+  | .ok c n => (c, n)
+  | .bad c => (c, -1)
+
+theorem unit_specList_step (fuel : Nat) (s : Bytes) (off cnt : Nat) :
+    specList (fuel+1) s off cnt =
+      match specData (s.drop (off + wsLen (s.drop off))) with
+      | .item n _ _ _ =>
+        if (s.drop (off + wsLen (s.drop off) + n + wsLen (s.drop (off + wsLen (s.drop off) + n)))).head? = some 44 then
+          specList fuel s (off + wsLen (s.drop off) + n + wsLen (s.drop (off + wsLen (s.drop off) + n)) + 1) (cnt + 1)
+        else .ok (off + wsLen (s.drop off) + n + wsLen (s.drop (off + wsLen (s.drop off) + n))) (cnt + 1)
+      | .swallow => .bad s.length
+      | .none => if cnt = 0 then .ok (off + wsLen (s.drop off)) 0 else .bad (off + wsLen (s.drop off)) := by
+  rw [specList]
+  simp only [beq_iff_eq]
+  rfl
+
+theorem unit_loop (buf : Bytes) (fuel : Nat) : ∀ (fuel' pos : Nat) (tlen result : Int) (k : Nat),
+    pos ≤ buf.length → buf.length - pos + 1 ≤ fuel → buf.length - pos + 1 ≤ fuel' →
+    ((allDataLoop buf fuel pos tlen result k).pos, (allDataLoop buf fuel pos tlen result k).paramCount) =
+        unit_listRes (specList fuel' buf pos k) ∧
+      pos ≤ (allDataLoop buf fuel pos tlen result k).pos ∧ (allDataLoop buf fuel pos tlen result k).pos ≤ buf.length := by
+  induction fuel with
+  | zero => intro fuel' pos tlen result k h1 h2; omega
+  | succ fuel ih =>
+    intro fuel' pos tlen result k h1 h2 h3
+    cases fuel' with
+    | zero => omega
+    | succ fuel' =>
+      rw [unit_loop_step, unit_specList_step]
+      cases hd : specData (buf.drop (pos + wsLen (buf.drop pos))) with
+      | item n t po pl =>
+        obtain ⟨e1, e2, e3, e4⟩ := unit_pd_item h1 hd
+        have ht := unit_specData_item hd
+        simp only [e3, ht, ne_eq, not_false_eq_true, if_true, e1]
+        by_cases hc : (buf.drop (pos + wsLen (buf.drop pos) + n + wsLen (buf.drop (pos + wsLen (buf.drop pos) + n)))).head? = some 44
+        · rw [if_pos hc, if_pos hc]
+          have hlt := unit_head_lt hc
+          have hk : (k : Int) + 1 = ((k + 1 : Nat) : Int) := by omega
+          rw [hk]
+          have := ih fuel' (pos + wsLen (buf.drop pos) + n + wsLen (buf.drop (pos + wsLen (buf.drop pos) + n)) + 1)
+            (tlen + result + (parseProgramData buf pos).2.2) 1 (k + 1) hlt (by omega) (by omega)
+          refine ⟨this.1, by omega, this.2.2⟩
+        · rw [if_neg hc, if_neg hc]
+          refine ⟨?_, by simp only; omega, e4⟩
+          simp [unit_listRes]
+      | swallow =>
+        obtain ⟨e1, e2, e3, e4⟩ := programData_swallow buf pos h1 hd
+        simp only [e1, e2, e3, ne_eq, not_true_eq_false, if_false]
+        refine ⟨?_, h1, Nat.le_refl _⟩
+        simp [unit_listRes]
+        intro _; omega
+      | none =>
+        obtain ⟨e1, e2, e3⟩ := unit_pd_none h1 hd
+        have hb := unit_ws_bound buf pos h1
+        simp only [e1, e2, e3, ne_eq, not_true_eq_false, if_false]
+        refine ⟨?_, by omega, hb⟩
+        by_cases hk : k = 0
+        · subst hk; simp [unit_listRes]
+        · simp [unit_listRes, hk]
+
+
+theorem unit_allData (buf : Bytes) (pos : Nat) (h : pos ≤ buf.length) :
+    ((parseAllProgramData buf pos).pos, (parseAllProgramData buf pos).paramCount) =
+        unit_listRes (specList (buf.length + 1) buf pos 0) ∧
+      pos ≤ (parseAllProgramData buf pos).pos ∧ (parseAllProgramData buf pos).pos ≤ buf.length := by
+  unfold parseAllProgramData
+  exact unit_loop buf _ _ pos (-1) 1 0 h (by omega) (by omega)
+
+/-! ## the message unit -/
+
+/-- the terminator part of `detectUnit` -/
+def unit_tail (buf : Bytes) (hdr : Token) (x : Nat × Token × Int) : Parser.Unit :=
+  let (p3, data, n) := x
+  let (p4, tnl, rnl) := lexNewLine buf p3
+  let (p5, tlast, r) : Nat × Token × Int :=
+    if rnl != 0 then (p4, tnl, rnl) else
+      let (p, t, rs) := lexSemicolon buf p4
+      (p, t, rs)
+  let (p6, hdr, data) :=
+    if !iseos buf p5 && r == 0 then
+      (p5 + 1, { hdr with len := 1, type := TokType.invalid }, mkTok .unknown 0 0)
+    else (p5, hdr, data)
+  let term := if tlast.type == .semicolon then Termination.semicolon
+              else if tlast.type == .nl then Termination.nl else Termination.none
+  { header := hdr, data := data, nParams := n, term := term, consumed := p6 }
+
+theorem unit_detect_eq (buf : Bytes) :
+    detectUnit buf =
+      let (p0, _, _) := lexWhiteSpace buf 0
+      let (p1, hdr, hlen) := lexProgramHeader buf p0
+      let (p2, _, wlen) := lexWhiteSpace buf p1
+      unit_tail buf hdr
+        (if hlen ≥ 0 then
+          if wlen > 0 then
+            let a := parseAllProgramData buf p2
+            (a.pos, a.tok, a.paramCount)
+          else (p2, mkTok .unknown p2 0, 0)
+        else (p2, mkTok .unknown 0 0, 0)) := by
+  unfold detectUnit unit_tail
+  generalize lexWhiteSpace buf 0 = x0
+  obtain ⟨p0, t0, r0⟩ := x0
+  simp only []
+
+/-- the terminator part of `specUnit` -/
+def unit_specTail (s : Bytes) (w0 hl : Nat) (ht : TokType) (x : Nat × Int) : UnitSpec :=
+  let (p2, n) := x
+  let rest := s.drop p2
+  match specToken .nl rest with
+  | some e => ⟨p2 + e.consumed, .nl, true, w0, hl, ht, n⟩
+  | none =>
+    if rest.head? == some 59 then ⟨p2 + 1, .semicolon, true, w0, hl, ht, n⟩
+    else if rest.isEmpty then ⟨p2, .none, true, w0, hl, ht, n⟩
+    else ⟨p2 + 1, .none, false, w0, 1, .invalid, n⟩
+
+def unit_hdr : Option Expect → Nat × TokType
+  | some e => (e.consumed, e.type)
+  | none => (0, TokType.unknown)
+
+theorem unit_spec_eq (s : Bytes) (hl : Nat) (ht : TokType) (x : Nat × Int)
+    (hh : unit_hdr (specToken .header (s.drop (wsLen s))) = (hl, ht))
+    (hx : (if wsLen (s.drop (wsLen s + hl)) > 0 then
+            unit_listRes (specList (s.length + 1) s (wsLen s + hl + wsLen (s.drop (wsLen s + hl))) 0)
+          else (wsLen s + hl, 0)) = x) :
+    specUnit s = unit_specTail s (wsLen s) hl ht x := by
+  subst hx
+  unfold specUnit
+  simp only []
+  cases hh0 : specToken Kind.header (List.drop (wsLen s) s) with
+  | none =>
+    rw [hh0] at hh
+    simp only [unit_hdr] at hh
+    cases hh
+    simp only []
+    by_cases hw : wsLen (List.drop (wsLen s + 0) s) > 0
+    · simp only [hw, if_true]
+      cases specList (s.length + 1) s (wsLen s + 0 + wsLen (List.drop (wsLen s + 0) s)) 0 <;>
+        simp only [unit_listRes, unit_specTail] <;> rfl
+    · simp only [hw, if_false, unit_specTail]; rfl
+  | some e =>
+    rw [hh0] at hh
+    simp only [unit_hdr] at hh
+    cases hh
+    simp only []
+    by_cases hw : wsLen (List.drop (wsLen s + e.consumed) s) > 0
+    · simp only [hw, if_true]
+      cases specList (s.length + 1) s (wsLen s + e.consumed + wsLen (List.drop (wsLen s + e.consumed) s)) 0 <;>
+        simp only [unit_listRes, unit_specTail] <;> rfl
+    · simp only [hw, if_false, unit_specTail]; rfl
+
+
+theorem unit_header (buf : Bytes) (pos : Nat) (h : pos ≤ buf.length) :
+    ∃ hl ht, unit_hdr (specToken .header (buf.drop pos)) = (hl, ht) ∧
+      (lexProgramHeader buf pos).1 = pos + hl ∧ (lexProgramHeader buf pos).2.2 = (hl : Int) ∧
+      (lexProgramHeader buf pos).2.1.type = ht ∧ (lexProgramHeader buf pos).2.1.len = (hl : Int) ∧
+      (hl > 0 → (lexProgramHeader buf pos).2.1.ptr = pos) ∧ ht ≠ .invalid ∧ pos + hl ≤ buf.length := by
+  have hA := programHeader_spec buf pos h
+  cases he : specToken .header (buf.drop pos) with
+  | none =>
+    obtain ⟨a, b, c, d⟩ := unit_agrees_none hA he
+    simp only [reduceCtorEq, false_and, if_false] at d
+    exact ⟨0, .unknown, rfl, d, a, b, c, by omega, by decide, h⟩
+  | some e =>
+    obtain ⟨a, b, c, d⟩ := unit_agrees_some hA he
+    obtain ⟨f1, f2, f3, f4, f5⟩ := unit_header_some he
+    refine ⟨e.consumed, e.type, rfl, a, b, by rw [c], by rw [c, f3], ?_, f4, d⟩
+    intro _; rw [c, f2]; rfl
+
+theorem unit_nl_some {buf : Bytes} {pos : Nat} {e : Expect} (h : pos ≤ buf.length)
+    (he : specToken .nl (buf.drop pos) = some e) :
+    0 < e.consumed ∧ (lexNewLine buf pos).1 = pos + e.consumed ∧ (lexNewLine buf pos).2.2 = (e.consumed : Int) ∧
+      (lexNewLine buf pos).2.1.type = .nl ∧ pos + e.consumed ≤ buf.length := by
+  obtain ⟨a, b, c, d⟩ := unit_agrees_some (newLine_spec buf pos h) he
+  obtain ⟨f1, f2⟩ := unit_plain_some (re := newline) (ty := .nl) he
+  exact ⟨f1, a, b, by rw [c, f2], d⟩
+
+theorem unit_nl_none {buf : Bytes} {pos : Nat} (h : pos ≤ buf.length)
+    (he : specToken .nl (buf.drop pos) = none) :
+    (lexNewLine buf pos).2.2 = 0 ∧ (lexNewLine buf pos).1 = pos ∧ (lexNewLine buf pos).2.1.type = .unknown :=
+  unit_agrees_none' (newLine_spec buf pos h) he (by decide)
+
+theorem unit_tail_spec (buf : Bytes) (hdr data : Token) (n : Int) (p w0 hl : Nat) (ht : TokType)
+    (hp : p ≤ buf.length) :
+    let u := unit_tail buf hdr (p, data, n)
+    let e := unit_specTail buf w0 hl ht (p, n)
+    u.consumed = e.consumed ∧
+    (u.term.code = match e.term with | .none => 0 | .nl => 1 | .semicolon => 2) ∧
+    u.nParams = n ∧ e.nParams = n ∧ e.headerOff = w0 ∧
+    ((u.header = hdr ∧ e.wellFormed = true ∧ e.headerLen = hl ∧ e.headerType = ht) ∨
+     (u.header.type = .invalid ∧ e.wellFormed = false)) ∧
+    p ≤ u.consumed ∧ u.consumed ≤ buf.length ∧ (p < buf.length → p + 1 ≤ u.consumed) := by
+  unfold unit_tail unit_specTail
+  simp only []
+  cases he : specToken .nl (buf.drop p) with
+  | some e =>
+    obtain ⟨f1, f2, f3, f4, f5⟩ := unit_nl_some hp he
+    generalize lexNewLine buf p = x at f2 f3 f4
+    obtain ⟨p4, tnl, rnl⟩ := x
+    simp only at f2 f3 f4
+    subst f2 f3
+    have hne : ((e.consumed : Int) != 0) = true := by simp; omega
+    have hne' : ((e.consumed : Int) == 0) = false := by simp; omega
+    simp only [hne, if_true, hne', Bool.and_false, Bool.false_eq_true, if_false, f4]
+    refine ⟨trivial, by decide, trivial, trivial, trivial, .inl ⟨trivial, trivial, trivial, trivial⟩, by omega, f5, by omega⟩
+  | none =>
+    obtain ⟨f1, f2, f3⟩ := unit_nl_none hp he
+    generalize lexNewLine buf p = x at f1 f2 f3
+    obtain ⟨p4, tnl, rnl⟩ := x
+    simp only at f1 f2 f3
+    subst f1 f2
+    simp only [bne_self_eq_false, Bool.false_eq_true, if_false, lexSemicolon, unit_oneChar, beq_iff_eq]
+    by_cases hc : (buf.drop p4).head? = some 59
+    · have := unit_head_lt hc
+      have h10 : ((1 : Int) == 0) = false := by decide
+      simp only [hc, if_true, h10, Bool.and_false, Bool.false_eq_true, if_false]
+      exact ⟨trivial, by decide, trivial, trivial, trivial, .inl ⟨trivial, trivial, trivial, trivial⟩, by omega, this, by omega⟩
+    · have h00 : ((0 : Int) == 0) = true := by decide
+      simp only [hc, if_false, h00, Bool.and_true]
+      by_cases hemp : (buf.drop p4).isEmpty = true
+      · have hi : iseos buf p4 = true := by
+          simp only [List.isEmpty_iff, List.drop_eq_nil_iff] at hemp
+          simp [iseos, hemp]
+        simp only [hemp, hi, if_true, Bool.not_true, Bool.false_eq_true, if_false]
+        exact ⟨trivial, by decide, trivial, trivial, trivial, .inl ⟨trivial, trivial, trivial, trivial⟩, by omega, hp, by
+          simp [iseos] at hi; omega⟩
+      · have hi : iseos buf p4 = false := by
+          simp only [List.isEmpty_iff, List.drop_eq_nil_iff] at hemp
+          simp [iseos]; omega
+        simp only [hemp, hi, if_true, Bool.not_false, Bool.false_eq_true, if_false]
+        exact ⟨trivial, by decide, trivial, trivial, trivial, .inr ⟨trivial, trivial⟩, by omega, by
+          simp [iseos] at hi; omega, by omega⟩
+
+
+theorem unit_assemble (s : Bytes) (hdr data : Token) (n : Int) (p w0 hl : Nat) (ht : TokType)
+    (hp : p ≤ s.length) (h3 : hdr.type = ht) (h4 : hdr.len = (hl : Int)) (h5 : hl > 0 → hdr.ptr = w0)
+    (h6 : ht ≠ .invalid) :
+    let u := unit_tail s hdr (p, data, n)
+    let e := unit_specTail s w0 hl ht (p, n)
+    (u.consumed = e.consumed) ∧
+    (u.term.code = match e.term with | .none => 0 | .nl => 1 | .semicolon => 2) ∧
+    ((u.header.type = .invalid) ↔ e.wellFormed = false) ∧
+    (e.wellFormed = true → u.header.type = e.headerType ∧ u.header.len = e.headerLen ∧ (e.headerLen > 0 → u.header.ptr = e.headerOff) ∧
+                           u.nParams = e.nParams) ∧
+    u.consumed ≤ s.length ∧ (s ≠ [] → 1 ≤ u.consumed) := by
+  intro u e
+  obtain ⟨t1, t2, t3, t4, t5, t6, t7, t8, t9⟩ := unit_tail_spec s hdr data n p w0 hl ht hp
+  refine ⟨t1, t2, ?_, ?_, t8, ?_⟩
+  · rcases t6 with ⟨b1, b2, b3, b4⟩ | ⟨b1, b2⟩
+    · have : u.header.type ≠ .invalid := by
+        show (unit_tail s hdr (p, data, n)).header.type ≠ .invalid
+        rw [b1, h3]; exact h6
+      constructor
+      · intro hc; exact absurd hc this
+      · intro hc
+        have : (unit_specTail s w0 hl ht (p, n)).wellFormed = false := hc
+        rw [b2] at this; cases this
+    · exact ⟨fun _ => b2, fun _ => b1⟩
+  · intro hwf
+    rcases t6 with ⟨b1, b2, b3, b4⟩ | ⟨b1, b2⟩
+    · show (unit_tail s hdr (p, data, n)).header.type = (unit_specTail s w0 hl ht (p, n)).headerType ∧
+        (unit_tail s hdr (p, data, n)).header.len = ((unit_specTail s w0 hl ht (p, n)).headerLen : Int) ∧
+        ((unit_specTail s w0 hl ht (p, n)).headerLen > 0 →
+          (unit_tail s hdr (p, data, n)).header.ptr = (unit_specTail s w0 hl ht (p, n)).headerOff) ∧
+        (unit_tail s hdr (p, data, n)).nParams = (unit_specTail s w0 hl ht (p, n)).nParams
+      rw [b1, b3, b4, t5, t3, t4]
+      exact ⟨h3, h4, h5, rfl⟩
+    · have : (unit_specTail s w0 hl ht (p, n)).wellFormed = true := hwf
+      rw [b2] at this; cases this
+  · intro hne
+    have : 0 < s.length := List.length_pos_iff.2 hne
+    show 1 ≤ (unit_tail s hdr (p, data, n)).consumed
+    by_cases hp0 : p < s.length
+    · have := t9 hp0; omega
+    · omega
+
+
+theorem unit_spec (s : Bytes) :
+    let u := detectUnit s
+    let e := specUnit s
+    (u.consumed = e.consumed) ∧
+    (u.term.code = match e.term with | .none => 0 | .nl => 1 | .semicolon => 2) ∧
+    ((u.header.type = .invalid) ↔ e.wellFormed = false) ∧
+    (e.wellFormed = true → u.header.type = e.headerType ∧ u.header.len = e.headerLen ∧ (e.headerLen > 0 → u.header.ptr = e.headerOff) ∧
+                           u.nParams = e.nParams) ∧
+    u.consumed ≤ s.length ∧ (s ≠ [] → 1 ≤ u.consumed) := by
+  have hw0 := unit_wsLen_le s
+  obtain ⟨hl, ht, hh, a1, a2, a3, a4, a5, a6, a7⟩ := unit_header s (wsLen s) hw0
+  have hb1 := unit_ws_bound s (wsLen s + hl) a7
+  have hm : ∃ data n p, detectUnit s = unit_tail s (lexProgramHeader s (wsLen s)).2.1 (p, data, n) ∧
+      specUnit s = unit_specTail s (wsLen s) hl ht (p, n) ∧ p ≤ s.length := by
+    rw [unit_detect_eq, unit_ws]
+    simp only [List.drop_zero, Nat.zero_add]
+    generalize lexProgramHeader s (wsLen s) = x1 at a1 a2
+    obtain ⟨p1, hdr, hlen⟩ := x1
+    simp only at a1 a2
+    subst a1 a2
+    rw [unit_ws]
+    have hge : ((hl : Int) ≥ 0) := by omega
+    simp only [hge, if_true]
+    by_cases hw : wsLen (s.drop (wsLen s + hl)) > 0
+    · have hw' : ((wsLen (s.drop (wsLen s + hl)) : Nat) : Int) > 0 := by omega
+      simp only [hw', if_true]
+      obtain ⟨c1, c2, c3⟩ := unit_allData s (wsLen s + hl + wsLen (s.drop (wsLen s + hl))) hb1
+      refine ⟨_, _, _, rfl, ?_, c3⟩
+      apply unit_spec_eq s hl ht _ hh
+      rw [if_pos hw, ← c1]
+    · have hw' : ¬ ((wsLen (s.drop (wsLen s + hl)) : Nat) : Int) > 0 := by omega
+      have hz : wsLen (s.drop (wsLen s + hl)) = 0 := by omega
+      simp only [hw', if_false]
+      refine ⟨_, _, _, rfl, ?_, hb1⟩
+      apply unit_spec_eq s hl ht _ hh
+      rw [if_neg hw, hz]; rfl
+  obtain ⟨data, n, p, e1, e2, e3⟩ := hm
+  rw [e1, e2]
+  exact unit_assemble s _ data n p (wsLen s) hl ht e3 a3 a4 a5 a6
+
+/-- `Agrees` is decidable (used for the non-vacuity examples of Props/C13.lean) -/
+instance agreesDecidable (k : Kind) (buf : Bytes) (pos : Nat) (r : Nat × Token × Int) :
+    Decidable (Agrees k buf pos r) := by
+  unfold Agrees; split <;> infer_instance
+
 end ScpiVerif.Lemmas.Lexer
